@@ -79,6 +79,87 @@ theorem readVar_env {cx : Sem.Ctx} (hout : cx.outer = []) {n : String} (hn : sim
     rcases hfind : List.find? (fun p => p.fst == n) s.globals with _ | ⟨a, b⟩ <;> simp only [hfind] <;> rfl
   · rfl
 
+/-! ## frames: the locals of the current function start at the stack offset of the innermost frame -/
+
+/-- the innermost call frame has stack offset `off` -/
+def FrameAt (vs : VmState) (off : Nat) : Prop := ∃ f, vs.frames.getLast? = some f ∧ f.stackOffset = off
+
+theorem SameRest.frameAt {a b : VmState} (h : SameRest a b) {off : Nat} (hf : FrameAt a off) : FrameAt b off := by
+  unfold SameRest at h
+  unfold FrameAt
+  rw [h]; exact hf
+
+theorem _root_.Cao.Sim.StackIs.popW {st : VStack Val} {cap : Nat} {l : List Val} {v : Val} (h : StackIs st cap (v :: l))
+    {off : Nat} (hoff : off ≤ l.length) :
+    (st.popWOffset off).2 = v ∧ StackIs (st.popWOffset off).1 cap l := by
+  unfold VStack.popWOffset
+  rw [if_neg (by rw [h.count]; simp; omega)]
+  exact h.pop
+
+section instrAt
+variable {P : Prog}
+
+theorem reach_readLocalAt {ip i off : Nat} {vs : VmState} {cap : Nat} {stk : List Val}
+    (hin : ip < P.bytecode.size) (hop : P.bytecode.getD ip 0 = Compiler.op.readLocalVar)
+    (hi : rdU32 P.bytecode (ip + 1) = i) (hf : FrameAt vs off)
+    (hst : StackIs vs.stack cap stk) (hlt : off + i < stk.length) (hroom : stk.length + 1 < cap) :
+    ∃ vs', Reach P 1 ip vs (ip + 5) vs' ∧ StackIs vs'.stack cap (stk.reverse.getD (off + i) .nil :: stk) ∧
+      SameRest vs vs' ∧ vs'.globals = vs.globals := by
+  obtain ⟨f, hf1, hf2⟩ := hf
+  refine reach_push (P := P) (stk.reverse.getD (off + i) .nil) hin hst hroom fun re st' hp => ?_
+  exact step_readLocalVar (s := tick vs) (f := f) hop hf1 (by
+    rw [hf2, hi]
+    show vs.stack.push (vs.stack.get (off + i)) = _
+    rw [hst.get hlt]; exact hp)
+
+theorem reach_setLocalAt_old {ip i off : Nat} {vs : VmState} {cap : Nat} {stk : List Val} {x : Val}
+    (hin : ip < P.bytecode.size) (hop : P.bytecode.getD ip 0 = Compiler.op.setLocalVar)
+    (hi : rdU32 P.bytecode (ip + 1) = i) (hf : FrameAt vs off)
+    (hst : StackIs vs.stack cap (x :: stk)) (hlt : off + i < stk.length) :
+    ∃ vs', Reach P 1 ip vs (ip + 5) vs' ∧ StackIs vs'.stack cap ((stk.reverse.set (off + i) x).reverse) ∧
+      SameRest vs vs' ∧ vs'.globals = vs.globals := by
+  obtain ⟨f, hf1, hf2⟩ := hf
+  obtain ⟨hv, hst1⟩ := hst.popW (off := off) (by omega)
+  obtain ⟨old, hset, hst2⟩ := hst1.setAt x hlt
+  refine ⟨{ tick vs with stack := { (vs.stack.popWOffset off).1 with
+      data := (vs.stack.popWOffset off).1.data.set (off + i) x } },
+    Reach.one ⟨hin, rfl, fun re => ?_⟩, hst2, rfl, rfl⟩
+  exact step_setLocalVar (s := tick vs) (f := f) (old := old) hop hf1 (by
+    rw [hf2, hi]
+    show (vs.stack.popWOffset off).1.set (off + i) (vs.stack.popWOffset off).2 = _
+    rw [hv]; exact hset)
+
+theorem reach_setLocalAt_new {ip i off : Nat} {vs : VmState} {cap : Nat} {stk : List Val} {x : Val}
+    (hin : ip < P.bytecode.size) (hop : P.bytecode.getD ip 0 = Compiler.op.setLocalVar)
+    (hi : rdU32 P.bytecode (ip + 1) = i) (hoff : off + i = stk.length) (hf : FrameAt vs off)
+    (hst : StackIs vs.stack cap (x :: stk)) (hroom : stk.length + 1 < cap) :
+    ∃ vs', Reach P 1 ip vs (ip + 5) vs' ∧ StackIs vs'.stack cap (x :: stk) ∧
+      SameRest vs vs' ∧ vs'.globals = vs.globals := by
+  obtain ⟨f, hf1, hf2⟩ := hf
+  obtain ⟨hv, hst1⟩ := hst.popW (off := off) (by omega)
+  obtain ⟨st', hset, hst2⟩ := hst1.setTop x hroom
+  refine ⟨{ tick vs with stack := st' }, Reach.one ⟨hin, rfl, fun re => ?_⟩, hst2, rfl, rfl⟩
+  exact step_setLocalVar (s := tick vs) (f := f) (old := default) hop hf1 (by
+    rw [hf2, hi, hoff]
+    show (vs.stack.popWOffset off).1.set stk.length (vs.stack.popWOffset off).2 = _
+    rw [hv]; exact hset)
+
+end instrAt
+
+/-! ### the slots of the current function above the rest of the stack -/
+
+theorem getD_above (top rest : List Val) (i : Nat) :
+    (top ++ rest).reverse.getD (rest.length + i) .nil = top.reverse.getD i .nil := by
+  rw [List.reverse_append, List.getD_eq_getElem?_getD, List.getD_eq_getElem?_getD,
+    List.getElem?_append_right (by simp)]
+  simp
+
+theorem set_above (top rest : List Val) (i : Nat) (x : Val) :
+    ((top ++ rest).reverse.set (rest.length + i) x).reverse = (top.reverse.set i x).reverse ++ rest := by
+  rw [List.reverse_append, List.set_append_right _ _ (by simp)]
+  simp
+
+
 section simS
 variable {P : Prog} {F : List (UInt32 × Nat)} {N : String → Prop} {cx : Sem.Ctx} (hout : cx.outer = [])
 include hout
@@ -87,9 +168,9 @@ theorem eval_simS (S : List Slot) (env : Sem.Env) (henv : LookRel env S) :
     ∀ (e : Card), isExpr e = true → ∀ (fuel : Nat) (σ σ' : Sem.St) (env' : Sem.Env) (v : Val) (pc pc' : Nat),
       Sem.eval cx fuel env σ e = (σ', env', .ok v) → ECodeL P.bytecode F (ctxOf S) e pc pc' → pc' ≤ P.bytecode.size →
       σ' = σ ∧ env = env' ∧ ∃ n, n ≤ pc' - pc ∧
-        ∀ (vs : VmState) (cap : Nat) (stk : List Val), StackIs vs.stack cap stk → stk.length + edepth e < cap →
-          GRel F N σ.globals vs.globals → FrameOk vs → SRel S σ →
-          (∃ temps, stk = temps ++ baseOf S σ) →
+        ∀ (vs : VmState) (cap : Nat) (stk : List Val) (off : Nat), StackIs vs.stack cap stk → stk.length + edepth e < cap →
+          GRel F N σ.globals vs.globals → FrameAt vs off → SRel S σ →
+          (∃ temps rest, stk = temps ++ (baseOf S σ ++ rest) ∧ rest.length = off) →
           Scalar v ∧ ∃ vs', Reach P n pc vs pc' vs' ∧ StackIs vs'.stack cap (v :: stk) ∧ SameRest vs vs' ∧
             vs'.globals = vs.globals
   | .scalarInt i => by
@@ -102,7 +183,7 @@ theorem eval_simS (S : List Slot) (env : Sem.Env) (henv : LookRel env S) :
       obtain ⟨rfl, rfl, rfl⟩ := hev
       simp only [ECodeL] at hcode
       obtain ⟨h1, h2, rfl⟩ := hcode
-      refine ⟨rfl, rfl, 1, by omega, fun vs cap stk hst hroom _ _ _ _ => ?_⟩
+      refine ⟨rfl, rfl, 1, by omega, fun vs cap stk off hst hroom _ _ _ _ => ?_⟩
       simp only [edepth] at hroom
       obtain ⟨vs', hr, hs', hsame, hg⟩ := reach_push (P := P) (ip := pc) (ip' := pc + 9) (.int i) (by omega) hst hroom
         (fun re st' hp => by
@@ -120,7 +201,7 @@ theorem eval_simS (S : List Slot) (env : Sem.Env) (henv : LookRel env S) :
       obtain ⟨rfl, rfl, rfl⟩ := hev
       simp only [ECodeL] at hcode
       obtain ⟨h1, h2, rfl⟩ := hcode
-      refine ⟨rfl, rfl, 1, by omega, fun vs cap stk hst hroom _ _ _ _ => ?_⟩
+      refine ⟨rfl, rfl, 1, by omega, fun vs cap stk off hst hroom _ _ _ _ => ?_⟩
       simp only [edepth] at hroom
       obtain ⟨vs', hr, hs', hsame, hg⟩ := reach_push (P := P) (ip := pc) (ip' := pc + 9) (.real b) (by omega) hst hroom
         (fun re st' hp => by
@@ -137,7 +218,7 @@ theorem eval_simS (S : List Slot) (env : Sem.Env) (henv : LookRel env S) :
       obtain ⟨rfl, rfl, rfl⟩ := hev
       simp only [ECodeL] at hcode
       obtain ⟨h1, rfl⟩ := hcode
-      refine ⟨rfl, rfl, 1, by omega, fun vs cap stk hst hroom _ _ _ _ => ?_⟩
+      refine ⟨rfl, rfl, 1, by omega, fun vs cap stk off hst hroom _ _ _ _ => ?_⟩
       simp only [edepth] at hroom
       obtain ⟨vs', hr, hs', hsame, hg⟩ := reach_push (P := P) (ip := pc) (ip' := pc + 1) .nil (by omega) hst hroom
         (fun re st' hp => step_scalarNil (re := re) h1 (s := tick vs) (st' := st') hp)
@@ -159,9 +240,9 @@ theorem eval_simS (S : List Slot) (env : Sem.Env) (henv : LookRel env S) :
         obtain ⟨rfl, rfl, rfl⟩ := hev
         obtain ⟨rfl, rfl, n1, hn1, hsim1⟩ := eval_simS S env henv c he f σ σ1 env1 v1 pc m hc hc1 (by omega)
         have hlt := ecodeL_lt hc1
-        refine ⟨rfl, rfl, n1 + 1, by omega, fun vs cap stk hst hroom hg hfr hlr hbase => ?_⟩
+        refine ⟨rfl, rfl, n1 + 1, by omega, fun vs cap stk off hst hroom hg hfr hlr hbase => ?_⟩
         simp only [edepth] at hroom
-        obtain ⟨hs1, vs1, hr1, hst1, hsame1, hg1⟩ := hsim1 vs cap stk hst hroom hg hfr hlr hbase
+        obtain ⟨hs1, vs1, hr1, hst1, hsame1, hg1⟩ := hsim1 vs cap stk off hst hroom hg hfr hlr hbase
         have hpos := edepth_pos c
         obtain ⟨vs2, hr2, hst2, hsame2, hg2⟩ := reach_not (P := P) (ip := m) (by omega) hop hst1 (by omega)
         rw [ownD_scalar hs1 vs1.heap σ1] at hst2
@@ -195,12 +276,12 @@ theorem eval_simS (S : List Slot) (env : Sem.Env) (henv : LookRel env S) :
           simp only [Prod.mk.injEq, Sem.Res.ok.injEq] at hev
           obtain ⟨rfl, rfl, rfl⟩ := hev
           obtain ⟨rfl, rfl, n2, hn2, hsim2⟩ := eval_simS S env henv b heb f σ1 σ2 env2 vb m1 m2 hcb hc2 (by omega)
-          refine ⟨rfl, rfl, n1 + n2 + 1, by omega, fun vs cap stk hst hroom hg hfr hlr hbase => ?_⟩
+          refine ⟨rfl, rfl, n1 + n2 + 1, by omega, fun vs cap stk off hst hroom hg hfr hlr hbase => ?_⟩
           simp only [edepth] at hroom
-          obtain ⟨hsa, vs1, hr1, hst1, hsame1, hg1⟩ := hsim1 vs cap stk hst (by omega) hg hfr hlr hbase
-          obtain ⟨hsb, vs2, hr2, hst2, hsame2, hg2⟩ := hsim2 vs1 cap (va :: stk) hst1
-            (by simp only [List.length_cons]; omega) (by rw [hg1]; exact hg) (hsame1.frameOk hfr) hlr
-            (by obtain ⟨temps, ht⟩ := hbase; exact ⟨va :: temps, by rw [ht]; rfl⟩)
+          obtain ⟨hsa, vs1, hr1, hst1, hsame1, hg1⟩ := hsim1 vs cap stk off hst (by omega) hg hfr hlr hbase
+          obtain ⟨hsb, vs2, hr2, hst2, hsame2, hg2⟩ := hsim2 vs1 cap (va :: stk) off hst1
+            (by simp only [List.length_cons]; omega) (by rw [hg1]; exact hg) (hsame1.frameAt hfr) hlr
+            (by obtain ⟨temps, rest, ht, ho⟩ := hbase; exact ⟨va :: temps, rest, by rw [ht]; rfl, ho⟩)
           obtain ⟨vs3, hr3, hst3, hsame3, hg3⟩ := reach_bin (P := P) (ip := m2) k hk (by omega) hop hst2 (by omega)
           rw [ownD_scalar hsa vs2.heap σ2, ownD_scalar hsb vs2.heap σ2] at hst3
           exact ⟨scalar_binVal _ _ _, vs3, (hr1.trans hr2 rfl).trans hr3 rfl, hst3,
@@ -235,7 +316,7 @@ theorem eval_simS (S : List Slot) (env : Sem.Env) (henv : LookRel env S) :
         · rw [hl] at hev
           simp only [Prod.mk.injEq, Sem.Res.ok.injEq] at hev
           obtain ⟨rfl, rfl, rfl⟩ := hev
-          refine ⟨rfl, rfl, 1, by omega, fun vs cap stk hst hroom hg _ _ _ => ?_⟩
+          refine ⟨rfl, rfl, 1, by omega, fun vs cap stk off hst hroom hg _ _ _ => ?_⟩
           simp only [edepth] at hroom
           obtain ⟨_, hsx, id', hid', hv⟩ := hg.sem_vm n x hl
           rw [hid] at hid'
@@ -249,16 +330,17 @@ theorem eval_simS (S : List Slot) (env : Sem.Env) (henv : LookRel env S) :
         simp only [Option.bind_some, hsj, Slot.cell, Prod.mk.injEq, Sem.Res.ok.injEq] at hev hcode
         obtain ⟨rfl, rfl, rfl⟩ := hev
         obtain ⟨hop, hrd, rfl⟩ := hcode
-        refine ⟨rfl, rfl, 1, by omega, fun vs cap stk hst hroom hg hfr hlr hbase => ?_⟩
+        refine ⟨rfl, rfl, 1, by omega, fun vs cap stk off hst hroom hg hfr hlr hbase => ?_⟩
         simp only [edepth] at hroom
-        obtain ⟨temps, rfl⟩ := hbase
+        obtain ⟨temps, rest, rfl, rfl⟩ := hbase
         have hi : i < S.length := by
           have := lidx_lt hli; simpa [ctxOf] using this
-        have hlen : i < (temps ++ baseOf S σ).length := by
+        have hlen : rest.length + i < (temps ++ (baseOf S σ ++ rest)).length := by
           simp only [List.length_append, baseOf, List.length_reverse, List.length_map]; omega
-        obtain ⟨vs', hr, hs', hsame, hg'⟩ := reach_readLocal (P := P) (ip := pc) (by omega) hop hrd hfr hst hlen hroom
-        have hval : (temps ++ baseOf S σ).reverse.getD i .nil = σ.cells[c]?.getD .nil := by
-          rw [List.reverse_append, baseOf, List.reverse_reverse, List.getD_eq_getElem?_getD,
+        obtain ⟨vs', hr, hs', hsame, hg'⟩ := reach_readLocalAt (P := P) (ip := pc) (by omega) hop hrd hfr hst hlen hroom
+        have hval : (temps ++ (baseOf S σ ++ rest)).reverse.getD (rest.length + i) .nil = σ.cells[c]?.getD .nil := by
+          rw [← List.append_assoc, getD_above, List.reverse_append, baseOf, List.reverse_reverse,
+            List.getD_eq_getElem?_getD,
             List.getElem?_append_left (by rw [List.length_map]; exact hi), List.getElem?_map, hsj]
           rfl
         rw [hval] at hs'
@@ -567,17 +649,37 @@ theorem eval_scalarS {cx : Sem.Ctx} (hout : cx.outer = []) (env : Sem.Env) :
     intro he
     simp [isExpr] at he
 
+theorem ecodesL_le {B : Array UInt8} {F : List (UInt32 × Nat)} {L : LCtx} :
+    ∀ {es : List Card} {pc pc' : Nat}, ECodesL B F L es pc pc' → pc ≤ pc'
+  | [], _, _, h => by simp only [ECodesL] at h; omega
+  | e :: es, _, _, h => by
+    simp only [ECodesL] at h
+    obtain ⟨m, h1, h2⟩ := h
+    have := ecodeL_lt h1; have := ecodesL_le h2; omega
+
+theorem vcode_lt {B : Array UInt8} {F : List (UInt32 × Nat)} {J : Compiler.JumpTable} {L : LCtx} {e : Card} {pc pc' : Nat}
+    (h : VCode B F J L e pc pc') : pc < pc' := by
+  rcases h with h | h
+  · exact ecodeL_lt h
+  · cases e <;> simp only [CCode] at h
+    obtain ⟨m, _, _, h1, _, _, _, _, _, rfl⟩ := h
+    have := ecodesL_le h1; omega
+
 mutual
-theorem scodeS_le {B : Array UInt8} {F : List (UInt32 × Nat)} {d : Int} {L : LCtx} :
-    ∀ {c : Card} {pc pc' : Nat}, isStmtS d L c = true → SCodeS B F d L c pc pc' → pc ≤ pc'
+theorem scodeS_le {B : Array UInt8} {F : List (UInt32 × Nat)} {J : Compiler.JumpTable} {ft : Feat} {d : Int} {L : LCtx} :
+    ∀ {c : Card} {pc pc' : Nat}, isStmtS ft d L c = true → SCodeS B F J d L c pc pc' → pc ≤ pc'
   | .setGlobalVar _ e, _, _, _, h => by
     simp only [SCodeS] at h
     obtain ⟨m, id, h1, _, _, _, rfl⟩ := h
-    have := ecodeL_lt h1; omega
+    have := vcode_lt h1; omega
   | .setVar _ e, _, _, _, h => by
     simp only [SCodeS] at h
     obtain ⟨m, i, _, h1, _, _, rfl⟩ := h
-    have := ecodeL_lt h1; omega
+    have := vcode_lt h1; omega
+  | .un .ret e, _, _, _, h => by
+    simp only [SCodeS] at h
+    obtain ⟨m, h1, _, rfl⟩ := h
+    have := vcode_lt h1; omega
   | .bin .ifTrue c b, _, _, hs, h => by
     simp only [SCodeS] at h
     simp only [isStmtS, Bool.and_eq_true] at hs
@@ -593,6 +695,13 @@ theorem scodeS_le {B : Array UInt8} {F : List (UInt32 × Nat)} {d : Int} {L : LC
     simp only [isStmtS, Bool.and_eq_true] at hs
     obtain ⟨m1, m2, h1, _, _, h2, _, _, _, rfl⟩ := h
     have := ecodeL_lt h1; have := bcodes_le hs.2 h2; omega
+  | .repeat i n (.composite _ cs), _, _, hs, h => by
+    simp only [SCodeS] at h
+    simp only [isStmtS, Bool.and_eq_true] at hs
+    obtain ⟨m0, mb, m2, h1, _, _, _, _, _, _, _, _, hmb, h2, _, _, _, _, _, _, _, _, _, rfl⟩ := h
+    have := ecodeL_lt h1; have := bcodes_le hs.2 h2
+    have : m0 + 35 ≤ mb := by cases i <;> simp only at hmb <;> omega
+    omega
   | .tri .ifElse c t e, _, _, hs, h => by
     simp only [SCodeS] at h
     simp only [isStmtS, Bool.and_eq_true] at hs
@@ -618,23 +727,33 @@ theorem scodeS_le {B : Array UInt8} {F : List (UInt32 × Nat)} {d : Int} {L : LC
   | .bin .equals _ _, _, _, hs, _ | .bin .notEquals _ _, _, _, hs, _ | .bin .and _ _, _, _, hs, _
   | .bin .or _ _, _, _, hs, _ | .bin .xor _ _, _, _, hs, _
   | .bin .getProperty _ _, _, _, hs, _ | .bin .get _ _, _, _, hs, _ | .bin .appendTable _ _, _, _, hs, _
-  | .un _ _, _, _, hs, _ | .tri .setProperty _ _ _, _, _, hs, _ | .scalarNil, _, _, hs, _ | .createTable, _, _, hs, _
+  | .un .not _, _, _, hs, _ | .un .len _, _, _, hs, _ | .un .popTable _, _, _, hs, _
+  | .tri .setProperty _ _ _, _, _, hs, _ | .scalarNil, _, _, hs, _ | .createTable, _, _, hs, _
   | .abort, _, _, hs, _ | .scalarInt _, _, _, hs, _ | .scalarFloat _, _, _, hs, _
   | .stringLiteral _, _, _, hs, _ | .function _, _, _, hs, _ | .nativeFunction _, _, _, hs, _
   | .readVar _, _, _, hs, _ | .callNative _ _, _, _, hs, _
-  | .call _ _, _, _, hs, _ | .repeat _ _ _, _, _, hs, _ | .forEach _ _ _ _ _, _, _, hs, _
+  | .call _ _, _, _, hs, _ | .forEach _ _ _ _ _, _, _, hs, _
+  | .repeat _ _ (.bin _ _ _), _, _, hs, _ | .repeat _ _ (.un _ _), _, _, hs, _ | .repeat _ _ (.tri _ _ _ _), _, _, hs, _
+  | .repeat _ _ .scalarNil, _, _, hs, _ | .repeat _ _ .createTable, _, _, hs, _ | .repeat _ _ .abort, _, _, hs, _
+  | .repeat _ _ (.scalarInt _), _, _, hs, _ | .repeat _ _ (.scalarFloat _), _, _, hs, _ | .repeat _ _ (.stringLiteral _), _, _, hs, _
+  | .repeat _ _ (.comment _), _, _, hs, _ | .repeat _ _ (.function _), _, _, hs, _ | .repeat _ _ (.nativeFunction _), _, _, hs, _
+  | .repeat _ _ (.readVar _), _, _, hs, _ | .repeat _ _ (.setVar _ _), _, _, hs, _ | .repeat _ _ (.setGlobalVar _ _), _, _, hs, _
+  | .repeat _ _ (.callNative _ _), _, _, hs, _ | .repeat _ _ (.call _ _), _, _, hs, _ | .repeat _ _ (.repeat _ _ _), _, _, hs, _
+  | .repeat _ _ (.forEach _ _ _ _ _), _, _, hs, _ | .repeat _ _ (.dynamicCall _ _), _, _, hs, _ | .repeat _ _ (.array _), _, _, hs, _
+  | .repeat _ _ (.closure _ _), _, _, hs, _
+ 
   | .dynamicCall _ _, _, _, hs, _ | .array _, _, _, hs, _ | .closure _ _, _, _, hs, _ => by
     simp [isStmtS] at hs
-theorem scodesS_le {B : Array UInt8} {F : List (UInt32 × Nat)} {d : Int} {L : LCtx} :
-    ∀ {cs : List Card} {pc pc' : Nat}, isStmtsS d L cs = true → SCodesS B F d L cs pc pc' → pc ≤ pc'
+theorem scodesS_le {B : Array UInt8} {F : List (UInt32 × Nat)} {J : Compiler.JumpTable} {ft : Feat} {d : Int} {L : LCtx} :
+    ∀ {cs : List Card} {pc pc' : Nat}, isStmtsS ft d L cs = true → SCodesS B F J d L cs pc pc' → pc ≤ pc'
   | [], _, _, _, h => by simp only [SCodesS] at h; omega
   | c :: cs, _, _, hs, h => by
     simp only [SCodesS] at h
     simp only [isStmtsS, Bool.and_eq_true] at hs
     obtain ⟨m, h1, h2⟩ := h
     have := scodeS_le hs.1 h1; have := scodesS_le hs.2 h2; omega
-theorem bcodes_le {B : Array UInt8} {F : List (UInt32 × Nat)} {d : Int} :
-    ∀ {cs : List Card} {L : LCtx} {pc pc' : Nat}, isBlock d L cs = true → BCodes B F d L cs pc pc' → pc ≤ pc'
+theorem bcodes_le {B : Array UInt8} {F : List (UInt32 × Nat)} {J : Compiler.JumpTable} {ft : Feat} {d : Int} :
+    ∀ {cs : List Card} {L : LCtx} {pc pc' : Nat}, isBlock ft d L cs = true → BCodes B F J d L cs pc pc' → pc ≤ pc'
   | [], _, _, _, _, h => by simp only [BCodes] at h; omega
   | c :: cs, L, _, _, hs, h => by
     simp only [BCodes] at h
@@ -645,15 +764,31 @@ theorem bcodes_le {B : Array UInt8} {F : List (UInt32 × Nat)} {d : Int} :
       have := scodeS_le hs.1 h1; have := bcodes_le hs.2 h2; omega
     · simp only [hdecl, Bool.and_eq_true] at hs h
       obtain ⟨m, h1, _, _, h2⟩ := h
-      have := ecodeL_lt h1; have := bcodes_le hs.2 h2; omega
+      have := vcode_lt h1; have := bcodes_le hs.2 h2; omega
 end
+
+/-- stack slots needed for the arguments of a call -/
+def argsDepth : List Card → Nat
+  | [] => 0
+  | e :: es => max (edepth e) (1 + argsDepth es)
+
+/-- stack slots needed for a static call in a value position: the arguments, the function value
+    (the frame of the callee is accounted for separately, see `Side`) -/
+def cdepth : Card → Nat
+  | .call _ args => argsDepth args + 1
+  | _ => 0
+
+/-- stack slots needed for a value -/
+def vdepth (e : Card) : Nat := max (edepth e) (cdepth e)
 
 mutual
   /-- stack slots needed above the slots that exist when the card starts -/
   def sdepthS : Card → Nat
-    | .setGlobalVar _ e => edepth e
-    | .setVar _ e => edepth e
+    | .setGlobalVar _ e => vdepth e
+    | .setVar _ e => vdepth e
+    | .un .ret e => vdepth e
     | .bin .while c (.composite _ cs) => max (edepth c) (bdepthS cs)
+    | .repeat _ n (.composite _ cs) => max (edepth n) (4 + bdepthS cs)
     | .bin _ c b => max (edepth c) (sdepthS b)
     | .tri _ c t e => max (edepth c) (max (sdepthS t) (sdepthS e))
     | .composite _ cs => sdepthsS cs
@@ -664,56 +799,182 @@ mutual
   /-- the same for the cards of a block: every `SetVar` may add a slot -/
   def bdepthS : List Card → Nat
     | [] => 0
-    | .setVar _ e :: cs => max (edepth e) (1 + bdepthS cs)
+    | .setVar _ e :: cs => max (vdepth e) (1 + bdepthS cs)
     | c :: cs => max (sdepthS c) (bdepthS cs)
 end
 
+/-! ## what is kept of the machine state while a function of the fragment runs
+
+`fs` are the call frames below the current one, `rest` the part of the value stack below the
+current frame, `k` the number of script-function calls the reference execution has made so far.
+`C` bounds the number of calls of the whole reference execution and `W` the number of value-stack
+slots a function of the program needs: there is room for `C - k` more frames, each `W` slots high. -/
+
+/-- the bytes charged for the objects of the heap -/
+def chargeSum (objs : List (Nat × Obj)) : Nat := objs.foldl (fun n p => n + Heap.chargeOf p.2) 0
+
+structure Side (C W : Nat) (vs : VmState) (cap : Nat) (fs : List Frame) (rest : List Val) (k : Nat) : Prop where
+  frames : ∃ cur, vs.frames = fs ++ [cur] ∧ cur.stackOffset = rest.length ∧ cur.closure = none
+  noClos : ∀ f ∈ fs, f.closure = none
+  acc : vs.mem.allocated = chargeSum vs.heap.objs
+  hwf : ∀ p ∈ vs.heap.objs, p.1 < vs.heap.next
+  guards : vs.guards = []
+  ups : vs.openUpvalues = []
+  restS : ∀ v ∈ rest, Scalar v
+  fdepth : fs.length + 1 + (C - k) ≤ vs.frameCap
+  sdepth : rest.length + (C - k + 1) * W < cap
+  mem : 0 < C → Heap.objCharge ≤ vs.mem.limit
+
+theorem Side.frameAt {C W : Nat} {vs : VmState} {cap : Nat} {fs : List Frame} {rest : List Val} {k : Nat}
+    (h : Side C W vs cap fs rest k) : FrameAt vs rest.length := by
+  obtain ⟨cur, h1, h2, _⟩ := h.frames
+  exact ⟨cur, by rw [h1]; simp, h2⟩
+
+theorem Side.room {C W : Nat} {vs : VmState} {cap : Nat} {fs : List Frame} {rest : List Val} {k : Nat}
+    (h : Side C W vs cap fs rest k) : rest.length + W < cap := by
+  have h1 := h.sdepth
+  have h2 : W ≤ (C - k + 1) * W := Nat.le_mul_of_pos_left _ (by omega)
+  omega
+
+theorem SameRest.side {C W : Nat} {a b : VmState} {cap : Nat} {fs : List Frame} {rest : List Val} {k : Nat}
+    (h : SameRest a b) (hs : Side C W a cap fs rest k) : Side C W b cap fs rest k := by
+  unfold SameRest at h
+  have e1 : b.frames = a.frames := by rw [h]
+  have e2 : b.mem = a.mem := by rw [h]
+  have e3 : b.heap = a.heap := by rw [h]
+  have e4 : b.guards = a.guards := by rw [h]
+  have e5 : b.openUpvalues = a.openUpvalues := by rw [h]
+  have e6 : b.frameCap = a.frameCap := by rw [h]
+  exact ⟨by rw [e1]; exact hs.frames, hs.noClos, by rw [e2, e3]; exact hs.acc, by rw [e3]; exact hs.hwf,
+    by rw [e4]; exact hs.guards,
+    by rw [e5]; exact hs.ups, hs.restS, by rw [e6]; exact hs.fdepth, hs.sdepth, by rw [e2]; exact hs.mem⟩
+
+/-- what a piece of code of the fragment keeps: the host log, and `Side` (with the calls counted) -/
+structure Pres (C W : Nat) (cap : Nat) (fs : List Frame) (rest : List Val) (k k' : Nat) (a b : VmState) : Prop where
+  log : b.hostLog = a.hostLog
+  side : Side C W a cap fs rest k → Side C W b cap fs rest k'
+
+theorem SameRest.pres {C W : Nat} {a b : VmState} {cap : Nat} {fs : List Frame} {rest : List Val} {k : Nat}
+    (h : SameRest a b) : Pres C W cap fs rest k k a b :=
+  ⟨by unfold SameRest at h; rw [h], h.side⟩
+
+theorem Pres.trans {C W : Nat} {a b c : VmState} {cap : Nat} {fs : List Frame} {rest : List Val} {k k' k'' : Nat}
+    (h1 : Pres C W cap fs rest k k' a b) (h2 : Pres C W cap fs rest k' k'' b c) : Pres C W cap fs rest k k'' a c :=
+  ⟨h2.log.trans h1.log, fun hs => h2.side (h1.side hs)⟩
+
+theorem SameRest.transP {C W : Nat} {a b c : VmState} {cap : Nat} {fs : List Frame} {rest : List Val} {k k' : Nat}
+    (h1 : SameRest a b) (h2 : Pres C W cap fs rest k k' b c) : Pres C W cap fs rest k k' a c := h1.pres.trans h2
+
+theorem Pres.transS {C W : Nat} {a b c : VmState} {cap : Nat} {fs : List Frame} {rest : List Val} {k k' : Nat}
+    (h1 : Pres C W cap fs rest k k' a b) (h2 : SameRest b c) : Pres C W cap fs rest k k' a c := h1.trans h2.pres
+
+theorem Pres.refl {C W : Nat} (a : VmState) {cap : Nat} {fs : List Frame} {rest : List Val} {k : Nat} :
+    Pres C W cap fs rest k k a a := ⟨rfl, id⟩
+
+
+/-- `SemFrame`, and the cells that exist and are not cells of the slots `S` keep their value -/
+structure SFrame (S : List Slot) (σ σ' : Sem.St) : Prop extends SemFrame σ σ' where
+  size : σ.cells.size ≤ σ'.cells.size
+  kept : ∀ c, c < σ.cells.size → (∀ s ∈ S, s.cell ≠ some c) → σ'.cells[c]? = σ.cells[c]?
+
+theorem SFrame.refl (S : List Slot) (σ : Sem.St) : SFrame S σ σ :=
+  ⟨SemFrame.refl σ, Nat.le_refl _, fun _ _ _ => rfl⟩
+
+theorem SFrame.trans {S : List Slot} {a b c : Sem.St} (h1 : SFrame S a b) (h2 : SFrame S b c) : SFrame S a c :=
+  ⟨h1.toSemFrame.trans h2.toSemFrame, Nat.le_trans h1.size h2.size, fun x hx hs => by
+    rw [h2.kept x (Nat.lt_of_lt_of_le hx h1.size) hs, h1.kept x hx hs]⟩
+
+/-- the second part may use more slots, whose cells are new -/
+theorem SFrame.trans_ext {S T : List Slot} {a b c : Sem.St} (h1 : SFrame S a b) (h2 : SFrame (S ++ T) b c)
+    (hT : ∀ s ∈ T, ∀ x, s.cell = some x → a.cells.size ≤ x) : SFrame S a c :=
+  ⟨h1.toSemFrame.trans h2.toSemFrame, Nat.le_trans h1.size h2.size, fun x hx hs => by
+    rw [h2.kept x (Nat.lt_of_lt_of_le hx h1.size) (fun s hm => by
+      rcases List.mem_append.1 hm with hm | hm
+      · exact hs s hm
+      · intro e; have := hT s hm x e; omega), h1.kept x hx hs]⟩
+
+/-- a step that does not touch the cells -/
+theorem SFrame.of_cells {S : List Slot} {σ σ' : Sem.St} (h : SemFrame σ σ') (hc : σ'.cells = σ.cells) :
+    SFrame S σ σ' := ⟨h, by rw [hc]; exact Nat.le_refl _, fun _ _ _ => by rw [hc]⟩
+
+/-- a new cell -/
+theorem SFrame.of_new (S : List Slot) (σ : Sem.St) (x : Val) : SFrame S σ (Sem.newCell σ x).1 :=
+  ⟨SemFrame.of_eq rfl, by show σ.cells.size ≤ (σ.cells.push x).size; simp, fun c hc _ => by
+    show (σ.cells.push x)[c]? = σ.cells[c]?
+    rw [Array.getElem?_push_lt hc]; simp⟩
+
+/-- an assignment to the cell of a slot -/
+theorem SFrame.of_assign {S : List Slot} (σ : Sem.St) {s : Slot} {c : Nat} (hs : s ∈ S) (hc : s.cell = some c)
+    (x : Val) : SFrame S σ { σ with cells := σ.cells.set! c x } :=
+  ⟨SemFrame.of_eq rfl, by show σ.cells.size ≤ (σ.cells.set! c x).size; simp, fun c' _ hn => by
+    show (σ.cells.set! c x)[c']? = σ.cells[c']?
+    have hne : c ≠ c' := fun e => hn s hs (by rw [hc, e])
+    simp [hne]⟩
+
 section stmtsimS
-variable (P : Prog) (F : List (UInt32 × Nat)) (N : String → Prop) (cx : Sem.Ctx)
+variable (P : Prog) (F : List (UInt32 × Nat)) (J : Compiler.JumpTable) (N : String → Prop) (cx : Sem.Ctx) (ft : Feat) (C W : Nat)
 
 /-- what the VM does for a piece of code `[pc, pc')`: from the slots `S` to the slots `S'` -/
 def VmSimS (S : List Slot) (σ σ' : Sem.St) (S' : List Slot) (pc pc' : Nat) (depth : Nat) (lf : Bool) : Prop :=
   ∃ n, (lf = true → n ≤ pc' - pc) ∧
-    ∀ (vs : VmState) (cap : Nat), StackIs vs.stack cap (baseOf S σ) → S.length + depth < cap →
-      GRel F N σ.globals vs.globals → FrameOk vs →
-      ∃ vs', Reach P n pc vs pc' vs' ∧ StackIs vs'.stack cap (baseOf S' σ') ∧ SameRest vs vs' ∧
-        GRel F N σ'.globals vs'.globals
+    ∀ (vs : VmState) (cap : Nat) (fs : List Frame) (rest : List Val), σ'.calls ≤ C →
+      StackIs vs.stack cap (baseOf S σ ++ rest) → S.length + depth ≤ W →
+      GRel F N σ.globals vs.globals → Side C W vs cap fs rest σ.calls →
+      ∃ vs', Reach P n pc vs pc' vs' ∧ StackIs vs'.stack cap (baseOf S' σ' ++ rest) ∧
+        Pres C W cap fs rest σ.calls σ'.calls vs vs' ∧ GRel F N σ'.globals vs'.globals
 
 def CardSimS (f : Nat) (d : Int) (c : Card) (S : List Slot) (env : Sem.Env) : Prop :=
-  isStmtS d (ctxOf S) c = true → LookRel env S → ∀ (σ σ' : Sem.St) (env' : Sem.Env) (pc pc' : Nat),
-    Sem.exec cx f env σ c = (σ', env', .ok ()) → SCodeS P.bytecode F d (ctxOf S) c pc pc' →
+  isStmtS ft d (ctxOf S) c = true → LookRel env S → ∀ (σ σ' : Sem.St) (env' : Sem.Env) (pc pc' : Nat),
+    Sem.exec cx f env σ c = (σ', env', .ok ()) → SCodeS P.bytecode F J d (ctxOf S) c pc pc' →
     pc' ≤ P.bytecode.size → (∀ n ∈ snames c, N n) → SRel S σ →
-      env = env' ∧ SemFrame σ σ' ∧ SRel S σ' ∧ VmSimS P F N S σ σ' S pc pc' (sdepthS c) (loopFree c)
+      env = env' ∧ SFrame S σ σ' ∧ SRel S σ' ∧ VmSimS P F N C W S σ σ' S pc pc' (sdepthS c) (loopFree c)
 
 def CardsSimS (f : Nat) (d : Int) (cs : List Card) (S : List Slot) (env : Sem.Env) : Prop :=
-  isStmtsS d (ctxOf S) cs = true → LookRel env S → ∀ (σ σ' : Sem.St) (env' : Sem.Env) (pc pc' : Nat),
-    Sem.execListWith (Sem.exec cx f) env σ cs = (σ', env', .ok ()) → SCodesS P.bytecode F d (ctxOf S) cs pc pc' →
+  isStmtsS ft d (ctxOf S) cs = true → LookRel env S → ∀ (σ σ' : Sem.St) (env' : Sem.Env) (pc pc' : Nat),
+    Sem.execListWith (Sem.exec cx f) env σ cs = (σ', env', .ok ()) → SCodesS P.bytecode F J d (ctxOf S) cs pc pc' →
     pc' ≤ P.bytecode.size → (∀ n ∈ snamess cs, N n) → SRel S σ →
-      env = env' ∧ SemFrame σ σ' ∧ SRel S σ' ∧ VmSimS P F N S σ σ' S pc pc' (sdepthsS cs) (loopFrees cs)
+      env = env' ∧ SFrame S σ σ' ∧ SRel S σ' ∧ VmSimS P F N C W S σ σ' S pc pc' (sdepthsS cs) (loopFrees cs)
 
 /-- all statement cards, at every depth and for all slots -/
-def StmtSimS (f : Nat) : Prop := ∀ (d : Int) (c : Card) (S : List Slot) (env : Sem.Env), CardSimS P F N cx f d c S env
+def StmtSimS (f : Nat) : Prop := ∀ (d : Int) (c : Card) (S : List Slot) (env : Sem.Env), CardSimS P F J N cx ft C W f d c S env
 
 /-- the cards of a block: new slots `new` on top of `S` -/
 def BlockSimS (f : Nat) (d : Int) (cs : List Card) (S : List Slot) (env : Sem.Env) : Prop :=
-  isBlock d (ctxOf S) cs = true → LookRel env S → ∀ (σ σ' : Sem.St) (env' : Sem.Env) (pc pc' : Nat),
-    Sem.execListWith (Sem.exec cx f) env σ cs = (σ', env', .ok ()) → BCodes P.bytecode F d (ctxOf S) cs pc pc' →
+  isBlock ft d (ctxOf S) cs = true → LookRel env S → ∀ (σ σ' : Sem.St) (env' : Sem.Env) (pc pc' : Nat),
+    Sem.execListWith (Sem.exec cx f) env σ cs = (σ', env', .ok ()) → BCodes P.bytecode F J d (ctxOf S) cs pc pc' →
     pc' ≤ P.bytecode.size → (∀ n ∈ snamess cs, N n) → SRel S σ →
-      ∃ new, ctxOf (S ++ new) = blockCtx d (ctxOf S) cs ∧ LookRel env' (S ++ new) ∧ SemFrame σ σ' ∧
-        SRel (S ++ new) σ' ∧ VmSimS P F N S σ σ' (S ++ new) pc pc' (bdepthS cs) (loopFrees cs)
+      ∃ new, ctxOf (S ++ new) = blockCtx d (ctxOf S) cs ∧ LookRel env' (S ++ new) ∧ SFrame S σ σ' ∧
+        (∀ s ∈ new, ∀ c, s.cell = some c → σ.cells.size ≤ c) ∧
+        SRel (S ++ new) σ' ∧ VmSimS P F N C W S σ σ' (S ++ new) pc pc' (bdepthS cs) (loopFrees cs)
 
-variable {P F N cx}
+/-- what the VM does for the code of a value card -/
+def ValSimS (f : Nat) (e : Card) (S : List Slot) (env : Sem.Env) : Prop :=
+  isVal ft e = true → LookRel env S → ∀ (σ σ' : Sem.St) (env' : Sem.Env) (v : Val) (pc pc' : Nat),
+    Sem.eval cx f env σ e = (σ', env', .ok v) → VCode P.bytecode F J (ctxOf S) e pc pc' →
+    pc' ≤ P.bytecode.size → SRel S σ →
+      env = env' ∧ SFrame S σ σ' ∧ SRel S σ' ∧ Scalar v ∧ ∃ n, (noCall e = true → n ≤ pc' - pc) ∧
+        ∀ (vs : VmState) (cap : Nat) (fs : List Frame) (rest : List Val), σ'.calls ≤ C →
+          StackIs vs.stack cap (baseOf S σ ++ rest) → S.length + vdepth e ≤ W →
+          GRel F N σ.globals vs.globals → Side C W vs cap fs rest σ.calls →
+          ∃ vs', Reach P n pc vs pc' vs' ∧ StackIs vs'.stack cap (v :: (baseOf S σ' ++ rest)) ∧
+            Pres C W cap fs rest σ.calls σ'.calls vs vs' ∧ GRel F N σ'.globals vs'.globals
 
-theorem stmts_simS {f : Nat} (ih : StmtSimS P F N cx f) (d : Int) (S : List Slot) (env : Sem.Env) :
-    ∀ cs, CardsSimS P F N cx f d cs S env
+/-- the values of static calls, for all slots -/
+def CallSimS (f : Nat) : Prop :=
+  ∀ (g : String) (args : List Card) (S : List Slot) (env : Sem.Env), ValSimS P F J N cx ft C W f (.call g args) S env
+
+variable {P F J N cx ft C W}
+
+theorem stmts_simS {f : Nat} (ih : StmtSimS P F J N cx ft C W f) (d : Int) (S : List Slot) (env : Sem.Env) :
+    ∀ cs, CardsSimS P F J N cx ft C W f d cs S env
   | [] => by
     intro _ henv σ σ' env' pc pc' hex hcode _ _ hlr
     simp only [Sem.execListWith, Prod.mk.injEq] at hex
     obtain ⟨rfl, rfl, _⟩ := hex
     simp only [SCodesS] at hcode
     subst hcode
-    exact ⟨rfl, SemFrame.refl _, hlr, 0, fun _ => Nat.zero_le _, fun vs cap hst _ hg _ =>
-      ⟨vs, Reach.refl _ _, hst, SameRest.refl _, hg⟩⟩
+    exact ⟨rfl, SFrame.refl _ _, hlr, 0, fun _ => Nat.zero_le _, fun vs cap fs rest _ hst _ hg _ =>
+      ⟨vs, Reach.refl _ _, hst, Pres.refl _, hg⟩⟩
   | c :: cs => by
     intro hs henv σ σ' env' pc pc' hex hcode hsz hN hlr
     simp only [isStmtsS, Bool.and_eq_true] at hs
@@ -733,13 +994,13 @@ theorem stmts_simS {f : Nat} (ih : StmtSimS P F N cx f) (d : Int) (S : List Slot
         ih d c S env hs.1 henv σ σ1 env1 pc m hc hc1 (by omega) (fun n hn => hN n (Or.inl hn)) hlr
       obtain ⟨rfl, e2, hlr2, n2, hn2, hsim2⟩ :=
         stmts_simS ih d S env cs hs.2 henv σ1 σ' env' m pc' hex hc2 hsz (fun n hn => hN n (Or.inr hn)) hlr1
-      refine ⟨rfl, e1.trans e2, hlr2, n1 + n2, ?_, fun vs cap hst hd hg hfr => ?_⟩
+      refine ⟨rfl, e1.trans e2, hlr2, n1 + n2, ?_, fun vs cap fs rest hcl hst hd hg hsd => ?_⟩
       · intro hl
         simp only [loopFrees, Bool.and_eq_true] at hl
         have := hn1 hl.1; have := hn2 hl.2; omega
       · simp only [sdepthsS] at hd
-        obtain ⟨vs1, hr1, hst1, hsame1, hg1⟩ := hsim1 vs cap hst (by omega) hg hfr
-        obtain ⟨vs2, hr2, hst2, hsame2, hg2⟩ := hsim2 vs1 cap hst1 (by omega) hg1 (hsame1.frameOk hfr)
+        obtain ⟨vs1, hr1, hst1, hsame1, hg1⟩ := hsim1 vs cap fs rest (Nat.le_trans e2.calls hcl) hst (by omega) hg hsd
+        obtain ⟨vs2, hr2, hst2, hsame2, hg2⟩ := hsim2 vs1 cap fs rest hcl hst1 (by omega) hg1 (hsame1.side hsd)
         exact ⟨vs2, hr1.trans hr2 rfl, hst2, hsame1.trans hsame2, hg2⟩
     | outOfFuel | ret _ | exit | err _ | unspecified _ =>
       simp only [Prod.mk.injEq] at hex
@@ -750,8 +1011,30 @@ theorem stmts_simS {f : Nat} (ih : StmtSimS P F N cx f) (d : Int) (S : List Slot
 variable (hout : cx.outer = []) (hFinj : FInj F) (hNinj : HInj N)
 include hout hFinj hNinj
 
-theorem simS_setGlobal (f : Nat) (d : Int) (S : List Slot) (env : Sem.Env) (n : String) (e : Card) :
-    CardSimS P F N cx (f + 1) d (.setGlobalVar n e) S env := by
+omit hout hFinj hNinj in
+theorem ccode_expr {L : LCtx} {e : Card} (he : isExpr e = true) {pc pc' : Nat} :
+    ¬ CCode P.bytecode F J L e pc pc' := by
+  cases e <;> first | (simp [isExpr] at he; done) | (intro h; exact h)
+
+omit hFinj hNinj in
+/-- values: expressions do not change the state; calls are simulated by `hcall` -/
+theorem val_simS (f : Nat) (hcall : CallSimS P F J N cx ft C W f) (e : Card) (S : List Slot) (env : Sem.Env) :
+    ValSimS P F J N cx ft C W f e S env := by
+  intro he henv σ σ' env' v pc pc' hev hcode hsz hlr
+  rcases isVal_cases he with he' | ⟨g, args, rfl, _⟩
+  · have hc1 : ECodeL P.bytecode F (ctxOf S) e pc pc' := hcode.resolve_right (ccode_expr he')
+    have hsx := eval_scalarS hout env e he' f σ σ' env' v hev hlr.scalar hlr.gscalar
+    obtain ⟨rfl, rfl, n1, hn1, hsim1⟩ := eval_simS hout S env henv e he' f σ σ' env' v pc pc' hev hc1 hsz
+    refine ⟨rfl, SFrame.refl _ _, hlr, hsx, n1, fun _ => hn1, fun vs cap fs rest hcl hst hd hg hsd => ?_⟩
+    unfold vdepth at hd
+    obtain ⟨_, vs1, hr1, hst1, hsame1, hg1⟩ := hsim1 vs cap _ _ hst
+      (by have := hsd.room; simp only [List.length_append, baseOf_length]; omega) hg hsd.frameAt hlr ⟨[], rest, rfl, rfl⟩
+    exact ⟨vs1, hr1, hst1, hsame1.pres, by rw [hg1]; exact hg⟩
+  · exact hcall g args S env he henv σ σ' env' v pc pc' hev hcode hsz hlr
+
+theorem simS_setGlobal (f : Nat) (hcall : ∀ g, g ≤ f → CallSimS P F J N cx ft C W g) (d : Int) (S : List Slot) (env : Sem.Env)
+    (n : String) (e : Card) :
+    CardSimS P F J N cx ft C W (f + 1) d (.setGlobalVar n e) S env := by
   intro hs henv σ σ' env' pc pc' hex hcode hsz hN hlr
   simp only [isStmtS, Bool.and_eq_true, Bool.not_eq_true'] at hs
   obtain ⟨hne, he⟩ := hs
@@ -764,29 +1047,30 @@ theorem simS_setGlobal (f : Nat) (d : Int) (S : List Slot) (env : Sem.Env) (n : 
   | ok x =>
     simp only [hne, Bool.false_eq_true, if_false, Prod.mk.injEq, and_true] at hex
     obtain ⟨rfl, rfl⟩ := hex
-    have hsx0 := eval_scalarS hout env e he f σ σ1 env1 x hc hlr.scalar hlr.gscalar
-    obtain ⟨rfl, rfl, n1, hn1, hsim1⟩ := eval_simS hout S env henv e he f σ σ1 env1 x pc m hc hc1 (by omega)
-    have hlt := ecodeL_lt hc1
-    refine ⟨rfl, rfl, ⟨hlr.lt, hlr.inj, hlr.scalar, fun n' v hl => ?_, hlr.hscalar⟩, n1 + 1, fun _ => by omega,
-      fun vs cap hst hd hg hfr => ?_⟩
+    have hlt := vcode_lt hc1
+    obtain ⟨rfl, e1, hlr1, hsx, n1, hn1, hsim1⟩ :=
+      val_simS hout f (hcall f (Nat.le_refl _)) e S env he henv σ σ1 env1 x pc m hc hc1 (by omega) hlr
+    refine ⟨rfl, e1.trans (SFrame.of_cells (SemFrame.of_eq rfl) rfl), ⟨hlr1.lt, hlr1.inj, hlr1.scalar, fun n' v hl => ?_, hlr1.hscalar⟩, n1 + 1,
+      fun hl => by have := hn1 (by simpa [loopFree] using hl); omega,
+      fun vs cap fs rest hcl hst hd hg hsd => ?_⟩
     · rw [glookup_gupd] at hl
       by_cases hnn : n' = n
-      · rw [if_pos hnn] at hl; cases hl; exact hsx0
-      · rw [if_neg hnn] at hl; exact hlr.gscalar n' v hl
+      · rw [if_pos hnn] at hl; cases hl; exact hsx
+      · rw [if_neg hnn] at hl; exact hlr1.gscalar n' v hl
     simp only [sdepthS] at hd
-    obtain ⟨hsx, vs1, hr1, hst1, hsame1, hg1⟩ := hsim1 vs cap _ hst (by simp only [baseOf_length]; omega) hg hfr hlr ⟨[], rfl⟩
+    obtain ⟨vs1, hr1, hst1, hsame1, hg1⟩ := hsim1 vs cap fs rest hcl hst hd hg hsd
     obtain ⟨vs2, hr2, hst2, hsame2, hg2⟩ := reach_setGlobal (P := P) (ip := m) (by omega) hop hrd hst1
-    refine ⟨vs2, hr1.trans hr2 rfl, hst2, hsame1.trans hsame2, ?_⟩
-    rw [hg2, hg1]
-    exact hg.set hFinj hNinj (hN n (by simp [snames])) hsx hid
+    refine ⟨vs2, hr1.trans hr2 rfl, hst2, hsame1.transS hsame2, ?_⟩
+    rw [hg2]
+    exact hg1.set hFinj hNinj (hN n (by simp [snames])) hsx hid
   | outOfFuel | ret _ | exit | err _ | unspecified _ =>
     simp only [Prod.mk.injEq] at hex
     obtain ⟨_, _, h⟩ := hex
     cases h
 
 omit hFinj hNinj in
-theorem simS_ifTrue (f : Nat) (ih : StmtSimS P F N cx f) (d : Int) (S : List Slot) (env : Sem.Env) (c b : Card) :
-    CardSimS P F N cx (f + 1) d (.bin .ifTrue c b) S env := by
+theorem simS_ifTrue (f : Nat) (ih : StmtSimS P F J N cx ft C W f) (d : Int) (S : List Slot) (env : Sem.Env) (c b : Card) :
+    CardSimS P F J N cx ft C W (f + 1) d (.bin .ifTrue c b) S env := by
   intro hs henv σ σ' env' pc pc' hex hcode hsz hN hlr
   simp only [isStmtS, Bool.and_eq_true] at hs
   obtain ⟨hec, hsb⟩ := hs
@@ -805,33 +1089,33 @@ theorem simS_ifTrue (f : Nat) (ih : StmtSimS P F N cx f) (d : Int) (S : List Slo
     · rw [if_pos ht] at hex
       obtain ⟨rfl, e2, hlr2, n3, hn3, hsim3⟩ :=
         ih d b S env hsb henv σ1 σ' env' (m + 5) pc' hex hc2 hsz (fun n hn => hN n (by simpa [snames] using hn)) hlr
-      refine ⟨rfl, e2, hlr2, n1 + 1 + n3, ?_, fun vs cap hst hd hg hfr => ?_⟩
+      refine ⟨rfl, e2, hlr2, n1 + 1 + n3, ?_, fun vs cap fs rest hcl hst hd hg hsd => ?_⟩
       · intro hl
         have := hn3 (by simpa [loopFree] using hl)
         omega
       · simp only [sdepthS] at hd
-        obtain ⟨hsx, vs1, hr1, hst1, hsame1, hg1⟩ := hsim1 vs cap _ hst (by simp only [baseOf_length]; omega) hg hfr hlr ⟨[], rfl⟩
+        obtain ⟨hsx, vs1, hr1, hst1, hsame1, hg1⟩ := hsim1 vs cap _ _ hst (by have := hsd.room; simp only [List.length_append, baseOf_length]; omega) hg hsd.frameAt hlr ⟨[], rest, rfl, rfl⟩
         obtain ⟨vs2, hr2, hst2, hsame2, hg2⟩ := reach_gotoIfFalse (P := P) (ip := m) (by omega) hop hst1
         rw [truthy_eq hsx vs1.heap σ1, if_pos ht] at hr2
-        obtain ⟨vs3, hr3, hst3, hsame3, hg3⟩ := hsim3 vs2 cap hst2 (by omega) (by rw [hg2, hg1]; exact hg) ((hsame1.trans hsame2).frameOk hfr)
-        exact ⟨vs3, (hr1.trans hr2 rfl).trans hr3 rfl, hst3, (hsame1.trans hsame2).trans hsame3, hg3⟩
+        obtain ⟨vs3, hr3, hst3, hsame3, hg3⟩ := hsim3 vs2 cap fs rest hcl hst2 (by omega) (by rw [hg2, hg1]; exact hg) ((hsame1.trans hsame2).side hsd)
+        exact ⟨vs3, (hr1.trans hr2 rfl).trans hr3 rfl, hst3, (hsame1.trans hsame2).transP hsame3, hg3⟩
     · rw [if_neg ht] at hex
       simp only [Prod.mk.injEq, and_true] at hex
       obtain ⟨rfl, rfl⟩ := hex
-      refine ⟨rfl, SemFrame.refl _, hlr, n1 + 1, fun _ => by omega, fun vs cap hst hd hg hfr => ?_⟩
+      refine ⟨rfl, SFrame.refl _ _, hlr, n1 + 1, fun _ => by omega, fun vs cap fs rest hcl hst hd hg hsd => ?_⟩
       simp only [sdepthS] at hd
-      obtain ⟨hsx, vs1, hr1, hst1, hsame1, hg1⟩ := hsim1 vs cap _ hst (by simp only [baseOf_length]; omega) hg hfr hlr ⟨[], rfl⟩
+      obtain ⟨hsx, vs1, hr1, hst1, hsame1, hg1⟩ := hsim1 vs cap _ _ hst (by have := hsd.room; simp only [List.length_append, baseOf_length]; omega) hg hsd.frameAt hlr ⟨[], rest, rfl, rfl⟩
       obtain ⟨vs2, hr2, hst2, hsame2, hg2⟩ := reach_gotoIfFalse (P := P) (ip := m) (by omega) hop hst1
       rw [truthy_eq hsx vs1.heap σ1, if_neg ht, hrd] at hr2
-      exact ⟨vs2, hr1.trans hr2 rfl, hst2, hsame1.trans hsame2, by rw [hg2, hg1]; exact hg⟩
+      exact ⟨vs2, hr1.trans hr2 rfl, hst2, (hsame1.trans hsame2).pres, by rw [hg2, hg1]; exact hg⟩
   | outOfFuel | ret _ | exit | err _ | unspecified _ =>
     simp only [Prod.mk.injEq] at hex
     obtain ⟨_, _, h⟩ := hex
     cases h
 
 omit hFinj hNinj in
-theorem simS_ifFalse (f : Nat) (ih : StmtSimS P F N cx f) (d : Int) (S : List Slot) (env : Sem.Env) (c b : Card) :
-    CardSimS P F N cx (f + 1) d (.bin .ifFalse c b) S env := by
+theorem simS_ifFalse (f : Nat) (ih : StmtSimS P F J N cx ft C W f) (d : Int) (S : List Slot) (env : Sem.Env) (c b : Card) :
+    CardSimS P F J N cx ft C W (f + 1) d (.bin .ifFalse c b) S env := by
   intro hs henv σ σ' env' pc pc' hex hcode hsz hN hlr
   simp only [isStmtS, Bool.and_eq_true] at hs
   obtain ⟨hec, hsb⟩ := hs
@@ -850,33 +1134,33 @@ theorem simS_ifFalse (f : Nat) (ih : StmtSimS P F N cx f) (d : Int) (S : List Sl
     · rw [if_pos ht] at hex
       simp only [Prod.mk.injEq, and_true] at hex
       obtain ⟨rfl, rfl⟩ := hex
-      refine ⟨rfl, SemFrame.refl _, hlr, n1 + 1, fun _ => by omega, fun vs cap hst hd hg hfr => ?_⟩
+      refine ⟨rfl, SFrame.refl _ _, hlr, n1 + 1, fun _ => by omega, fun vs cap fs rest hcl hst hd hg hsd => ?_⟩
       simp only [sdepthS] at hd
-      obtain ⟨hsx, vs1, hr1, hst1, hsame1, hg1⟩ := hsim1 vs cap _ hst (by simp only [baseOf_length]; omega) hg hfr hlr ⟨[], rfl⟩
+      obtain ⟨hsx, vs1, hr1, hst1, hsame1, hg1⟩ := hsim1 vs cap _ _ hst (by have := hsd.room; simp only [List.length_append, baseOf_length]; omega) hg hsd.frameAt hlr ⟨[], rest, rfl, rfl⟩
       obtain ⟨vs2, hr2, hst2, hsame2, hg2⟩ := reach_gotoIfTrue (P := P) (ip := m) (by omega) hop hst1
       rw [truthy_eq hsx vs1.heap σ1, if_pos ht, hrd] at hr2
-      exact ⟨vs2, hr1.trans hr2 rfl, hst2, hsame1.trans hsame2, by rw [hg2, hg1]; exact hg⟩
+      exact ⟨vs2, hr1.trans hr2 rfl, hst2, (hsame1.trans hsame2).pres, by rw [hg2, hg1]; exact hg⟩
     · rw [if_neg ht] at hex
       obtain ⟨rfl, e2, hlr2, n3, hn3, hsim3⟩ :=
         ih d b S env hsb henv σ1 σ' env' (m + 5) pc' hex hc2 hsz (fun n hn => hN n (by simpa [snames] using hn)) hlr
-      refine ⟨rfl, e2, hlr2, n1 + 1 + n3, ?_, fun vs cap hst hd hg hfr => ?_⟩
+      refine ⟨rfl, e2, hlr2, n1 + 1 + n3, ?_, fun vs cap fs rest hcl hst hd hg hsd => ?_⟩
       · intro hl
         have := hn3 (by simpa [loopFree] using hl)
         omega
       · simp only [sdepthS] at hd
-        obtain ⟨hsx, vs1, hr1, hst1, hsame1, hg1⟩ := hsim1 vs cap _ hst (by simp only [baseOf_length]; omega) hg hfr hlr ⟨[], rfl⟩
+        obtain ⟨hsx, vs1, hr1, hst1, hsame1, hg1⟩ := hsim1 vs cap _ _ hst (by have := hsd.room; simp only [List.length_append, baseOf_length]; omega) hg hsd.frameAt hlr ⟨[], rest, rfl, rfl⟩
         obtain ⟨vs2, hr2, hst2, hsame2, hg2⟩ := reach_gotoIfTrue (P := P) (ip := m) (by omega) hop hst1
         rw [truthy_eq hsx vs1.heap σ1, if_neg ht] at hr2
-        obtain ⟨vs3, hr3, hst3, hsame3, hg3⟩ := hsim3 vs2 cap hst2 (by omega) (by rw [hg2, hg1]; exact hg) ((hsame1.trans hsame2).frameOk hfr)
-        exact ⟨vs3, (hr1.trans hr2 rfl).trans hr3 rfl, hst3, (hsame1.trans hsame2).trans hsame3, hg3⟩
+        obtain ⟨vs3, hr3, hst3, hsame3, hg3⟩ := hsim3 vs2 cap fs rest hcl hst2 (by omega) (by rw [hg2, hg1]; exact hg) ((hsame1.trans hsame2).side hsd)
+        exact ⟨vs3, (hr1.trans hr2 rfl).trans hr3 rfl, hst3, (hsame1.trans hsame2).transP hsame3, hg3⟩
   | outOfFuel | ret _ | exit | err _ | unspecified _ =>
     simp only [Prod.mk.injEq] at hex
     obtain ⟨_, _, h⟩ := hex
     cases h
 
 omit hFinj hNinj in
-theorem simS_ifElse (f : Nat) (ih : StmtSimS P F N cx f) (d : Int) (S : List Slot) (env : Sem.Env) (c t e : Card) :
-    CardSimS P F N cx (f + 1) d (.tri .ifElse c t e) S env := by
+theorem simS_ifElse (f : Nat) (ih : StmtSimS P F J N cx ft C W f) (d : Int) (S : List Slot) (env : Sem.Env) (c t e : Card) :
+    CardSimS P F J N cx ft C W (f + 1) d (.tri .ifElse c t e) S env := by
   intro hs henv σ σ' env' pc pc' hex hcode hsz hN hlr
   simp only [isStmtS, Bool.and_eq_true] at hs
   obtain ⟨⟨hec, hst_⟩, hse⟩ := hs
@@ -897,35 +1181,35 @@ theorem simS_ifElse (f : Nat) (ih : StmtSimS P F N cx f) (d : Int) (S : List Slo
       obtain ⟨rfl, e2, hlr2, n3, hn3, hsim3⟩ :=
         ih d t S env hst_ henv σ1 σ' env' (m1 + 5) m2 hex hc2 (by omega)
           (fun n hn => hN n (by simp only [snames, List.mem_append]; exact Or.inl hn)) hlr
-      refine ⟨rfl, e2, hlr2, n1 + 1 + n3 + 1, ?_, fun vs cap hst hd hg hfr => ?_⟩
+      refine ⟨rfl, e2, hlr2, n1 + 1 + n3 + 1, ?_, fun vs cap fs rest hcl hst hd hg hsd => ?_⟩
       · intro hl
         simp only [loopFree, Bool.and_eq_true] at hl
         have := hn3 hl.1
         omega
       · simp only [sdepthS] at hd
-        obtain ⟨hsx, vs1, hr1, hst1, hsame1, hg1⟩ := hsim1 vs cap _ hst (by simp only [baseOf_length]; omega) hg hfr hlr ⟨[], rfl⟩
+        obtain ⟨hsx, vs1, hr1, hst1, hsame1, hg1⟩ := hsim1 vs cap _ _ hst (by have := hsd.room; simp only [List.length_append, baseOf_length]; omega) hg hsd.frameAt hlr ⟨[], rest, rfl, rfl⟩
         obtain ⟨vs2, hr2, hst2, hsame2, hg2⟩ := reach_gotoIfFalse (P := P) (ip := m1) (by omega) hop1 hst1
         rw [truthy_eq hsx vs1.heap σ1, if_pos ht] at hr2
-        obtain ⟨vs3, hr3, hst3, hsame3, hg3⟩ := hsim3 vs2 cap hst2 (by omega) (by rw [hg2, hg1]; exact hg) ((hsame1.trans hsame2).frameOk hfr)
+        obtain ⟨vs3, hr3, hst3, hsame3, hg3⟩ := hsim3 vs2 cap fs rest hcl hst2 (by omega) (by rw [hg2, hg1]; exact hg) ((hsame1.trans hsame2).side hsd)
         obtain ⟨vs4, hr4, hst4, hsame4, hg4⟩ := reach_goto (P := P) (ip := m2) (vs := vs3) (by omega) hop2
         rw [hrd2] at hr4
         exact ⟨vs4, ((hr1.trans hr2 rfl).trans hr3 rfl).trans hr4 rfl, by rw [hst4]; exact hst3,
-          ((hsame1.trans hsame2).trans hsame3).trans hsame4, by rw [hg4]; exact hg3⟩
+          ((hsame1.trans hsame2).transP hsame3).transS hsame4, by rw [hg4]; exact hg3⟩
     · rw [if_neg ht] at hex
       obtain ⟨rfl, e2, hlr2, n3, hn3, hsim3⟩ :=
         ih d e S env hse henv σ1 σ' env' (m2 + 5) pc' hex hc3 hsz
           (fun n hn => hN n (by simp only [snames, List.mem_append]; exact Or.inr hn)) hlr
-      refine ⟨rfl, e2, hlr2, n1 + 1 + n3, ?_, fun vs cap hst hd hg hfr => ?_⟩
+      refine ⟨rfl, e2, hlr2, n1 + 1 + n3, ?_, fun vs cap fs rest hcl hst hd hg hsd => ?_⟩
       · intro hl
         simp only [loopFree, Bool.and_eq_true] at hl
         have := hn3 hl.2
         omega
       · simp only [sdepthS] at hd
-        obtain ⟨hsx, vs1, hr1, hst1, hsame1, hg1⟩ := hsim1 vs cap _ hst (by simp only [baseOf_length]; omega) hg hfr hlr ⟨[], rfl⟩
+        obtain ⟨hsx, vs1, hr1, hst1, hsame1, hg1⟩ := hsim1 vs cap _ _ hst (by have := hsd.room; simp only [List.length_append, baseOf_length]; omega) hg hsd.frameAt hlr ⟨[], rest, rfl, rfl⟩
         obtain ⟨vs2, hr2, hst2, hsame2, hg2⟩ := reach_gotoIfFalse (P := P) (ip := m1) (by omega) hop1 hst1
         rw [truthy_eq hsx vs1.heap σ1, if_neg ht, hrd1] at hr2
-        obtain ⟨vs3, hr3, hst3, hsame3, hg3⟩ := hsim3 vs2 cap hst2 (by omega) (by rw [hg2, hg1]; exact hg) ((hsame1.trans hsame2).frameOk hfr)
-        exact ⟨vs3, (hr1.trans hr2 rfl).trans hr3 rfl, hst3, (hsame1.trans hsame2).trans hsame3, hg3⟩
+        obtain ⟨vs3, hr3, hst3, hsame3, hg3⟩ := hsim3 vs2 cap fs rest hcl hst2 (by omega) (by rw [hg2, hg1]; exact hg) ((hsame1.trans hsame2).side hsd)
+        exact ⟨vs3, (hr1.trans hr2 rfl).trans hr3 rfl, hst3, (hsame1.trans hsame2).transP hsame3, hg3⟩
   | outOfFuel | ret _ | exit | err _ | unspecified _ =>
     simp only [Prod.mk.injEq] at hex
     obtain ⟨_, _, h⟩ := hex
@@ -933,8 +1217,9 @@ theorem simS_ifElse (f : Nat) (ih : StmtSimS P F N cx f) (d : Int) (S : List Slo
 
 
 omit hFinj hNinj in
-theorem simS_setVar (f : Nat) (d : Int) (S : List Slot) (env : Sem.Env) (n : String) (e : Card) :
-    CardSimS P F N cx (f + 1) d (.setVar n e) S env := by
+theorem simS_setVar (f : Nat) (hcall : ∀ g, g ≤ f → CallSimS P F J N cx ft C W g) (d : Int) (S : List Slot) (env : Sem.Env)
+    (n : String) (e : Card) :
+    CardSimS P F J N cx ft C W (f + 1) d (.setVar n e) S env := by
   intro hs henv σ σ' env' pc pc' hex hcode hsz hN hlr
   simp only [isStmtS, Bool.and_eq_true] at hs
   obtain ⟨⟨hn, hsome⟩, he⟩ := hs
@@ -948,20 +1233,22 @@ theorem simS_setVar (f : Nat) (d : Int) (S : List Slot) (env : Sem.Env) (n : Str
   rw [hc] at hex
   cases r1 with
   | ok x =>
-    have hsx0 := eval_scalarS hout env e he f σ σ1 env1 x hc hlr.scalar hlr.gscalar
-    obtain ⟨rfl, rfl, n1, hn1, hsim1⟩ := eval_simS hout S env henv e he f σ σ1 env1 x pc m hc hc1 (by omega)
+    have hlt := vcode_lt hc1
+    obtain ⟨rfl, e1, hlr1, hsx0, n1, hn1, hsim1⟩ :=
+      val_simS hout f (hcall f (Nat.le_refl _)) e S env he henv σ σ1 env1 x pc m hc hc1 (by omega) hlr
     simp only [henv n hne, hli, Option.bind_some, hsj, Slot.cell, Prod.mk.injEq, and_true] at hex
     obtain ⟨rfl, rfl⟩ := hex
-    have hlt := ecodeL_lt hc1
     have hi : i < S.length := by have := lidx_lt hli; simpa [ctxOf] using this
-    obtain ⟨hlr', hbase'⟩ := hlr.assign hsj hsx0
-    refine ⟨rfl, rfl, hlr', n1 + 1, fun _ => by omega, fun vs cap hst hd hg hfr => ?_⟩
+    obtain ⟨hlr', hbase'⟩ := hlr1.assign hsj hsx0
+    refine ⟨rfl, e1.trans (SFrame.of_assign _ (List.mem_of_getElem? hsj) rfl x), hlr', n1 + 1,
+      fun hl => by have := hn1 (by simpa [loopFree] using hl); omega,
+      fun vs cap fs rest hcl hst hd hg hsd => ?_⟩
     simp only [sdepthS] at hd
-    obtain ⟨hsx, vs1, hr1, hst1, hsame1, hg1⟩ := hsim1 vs cap _ hst (by simp only [baseOf_length]; omega) hg hfr hlr ⟨[], rfl⟩
-    obtain ⟨vs2, hr2, hst2, hsame2, hg2⟩ := reach_setLocal_old (P := P) (ip := m) (by omega) hop hrd
-      (hsame1.frameOk hfr) hst1 (by rw [baseOf_length]; exact hi)
-    refine ⟨vs2, hr1.trans hr2 rfl, ?_, hsame1.trans hsame2, by rw [hg2, hg1]; exact hg⟩
-    rw [hbase']
+    obtain ⟨vs1, hr1, hst1, hsame1, hg1⟩ := hsim1 vs cap fs rest hcl hst hd hg hsd
+    obtain ⟨vs2, hr2, hst2, hsame2, hg2⟩ := reach_setLocalAt_old (P := P) (ip := m) (by omega) hop hrd
+      (hsame1.side hsd).frameAt hst1 (by simp only [List.length_append, baseOf_length]; omega)
+    refine ⟨vs2, hr1.trans hr2 rfl, ?_, hsame1.transS hsame2, by rw [hg2]; exact hg1⟩
+    rw [hbase', ← set_above]
     exact hst2
   | outOfFuel | ret _ | exit | err _ | unspecified _ =>
     simp only [Prod.mk.injEq] at hex
@@ -991,16 +1278,17 @@ theorem bdepthS_ge (c : Card) (cs : List Card) : max (sdepthS c) (bdepthS cs) 
   cases c <;> simp only [bdepthS, sdepthS] <;> omega
 
 omit hFinj hNinj in
-theorem block_simS {f : Nat} (ih : StmtSimS P F N cx f) (d : Int) :
-    ∀ (cs : List Card) (S : List Slot) (env : Sem.Env), BlockSimS P F N cx f d cs S env
+theorem block_simS {f : Nat} (ih : StmtSimS P F J N cx ft C W f)
+    (hcall : ∀ g, g < f → CallSimS P F J N cx ft C W g) (d : Int) :
+    ∀ (cs : List Card) (S : List Slot) (env : Sem.Env), BlockSimS P F J N cx ft C W f d cs S env
   | [], S, env => by
     intro _ henv σ σ' env' pc pc' hex hcode _ _ hlr
     simp only [Sem.execListWith, Prod.mk.injEq] at hex
     obtain ⟨rfl, rfl, _⟩ := hex
     simp only [BCodes] at hcode
     subst hcode
-    refine ⟨[], by simp [blockCtx], by simpa using henv, SemFrame.refl _, by simpa using hlr, 0,
-      fun _ => Nat.zero_le _, fun vs cap hst _ hg _ => ⟨vs, Reach.refl _ _, by simpa using hst, SameRest.refl _, hg⟩⟩
+    refine ⟨[], by simp [blockCtx], by simpa using henv, SFrame.refl _ _, (fun s hs => by cases hs), by simpa using hlr, 0,
+      fun _ => Nat.zero_le _, fun vs cap fs rest _ hst _ hg _ => ⟨vs, Reach.refl _ _, by simpa using hst, Pres.refl _, hg⟩⟩
   | c :: cs, S, env => by
     intro hs henv σ σ' env' pc pc' hex hcode hsz hN hlr
     simp only [isBlock] at hs
@@ -1020,22 +1308,23 @@ theorem block_simS {f : Nat} (ih : StmtSimS P F N cx f) (d : Int) :
         have hle2 := bcodes_le hs.2 hc2
         obtain ⟨rfl, e1, hlr1, n1, hn1, hsim1⟩ :=
           ih d c S env hs.1 henv σ σ1 env1 pc m hc hc1 (by omega) (fun n hn => hN n (Or.inl hn)) hlr
-        obtain ⟨new, hctx, hlook2, e2, hlr2, n2, hn2, hsim2⟩ :=
-          block_simS ih d cs S env hs.2 henv σ1 σ' env' m pc' hex hc2 hsz (fun n hn => hN n (Or.inr hn)) hlr1
-        refine ⟨new, hctx, hlook2, e1.trans e2, hlr2, n1 + n2, ?_, fun vs cap hst hd hg hfr => ?_⟩
+        obtain ⟨new, hctx, hlook2, e2, hnc2, hlr2, n2, hn2, hsim2⟩ :=
+          block_simS ih hcall d cs S env hs.2 henv σ1 σ' env' m pc' hex hc2 hsz (fun n hn => hN n (Or.inr hn)) hlr1
+        refine ⟨new, hctx, hlook2, e1.trans e2, fun s hs c hc => Nat.le_trans e1.size (hnc2 s hs c hc), hlr2, n1 + n2, ?_,
+          fun vs cap fs rest hcl hst hd hg hsd => ?_⟩
         · intro hl
           simp only [loopFrees, Bool.and_eq_true] at hl
           have hle1 := scodeS_le hs.1 hc1
           have := hn1 hl.1; have := hn2 hl.2; omega
         · have hge := bdepthS_ge c cs
-          obtain ⟨vs1, hr1, hst1, hsame1, hg1⟩ := hsim1 vs cap hst (by omega) hg hfr
-          obtain ⟨vs2, hr2, hst2, hsame2, hg2⟩ := hsim2 vs1 cap hst1 (by omega) hg1 (hsame1.frameOk hfr)
+          obtain ⟨vs1, hr1, hst1, hsame1, hg1⟩ := hsim1 vs cap fs rest (Nat.le_trans e2.calls hcl) hst (by omega) hg hsd
+          obtain ⟨vs2, hr2, hst2, hsame2, hg2⟩ := hsim2 vs1 cap fs rest hcl hst1 (by omega) hg1 (hsame1.side hsd)
           exact ⟨vs2, hr1.trans hr2 rfl, hst2, hsame1.trans hsame2, hg2⟩
       · simp only [hdecl, Bool.and_eq_true] at hs hcode ⊢
         obtain ⟨rfl, hnone⟩ := declOf_some hdecl
         obtain ⟨m, hc1, hop, hrd, hc2⟩ := hcode
         have hle2 := bcodes_le hs.2 hc2
-        have hlt := ecodeL_lt hc1
+        have hlt := vcode_lt hc1
         have hne : n.isEmpty = false := by
           have := hs.1.1
           simp only [simpleName, Bool.and_eq_true, Bool.not_eq_true'] at this; exact this.2
@@ -1047,9 +1336,8 @@ theorem block_simS {f : Nat} (ih : StmtSimS P F N cx f) (d : Int) :
           rw [hce] at hc
           cases re with
           | ok x =>
-            have hsx0 := eval_scalarS hout env e hs.1.2 f' σ σe enve x hce hlr.scalar hlr.gscalar
-            obtain ⟨rfl, rfl, n1, hn1, hsim1⟩ := eval_simS (P := P) (F := F) (N := N) hout S env henv e hs.1.2 f'
-              σ σe enve x pc m hce hc1 (by omega)
+            obtain ⟨rfl, ee, hlre, hsx0, n1, hn1, hsim1⟩ := val_simS hout f' (hcall f' (Nat.lt_succ_self _)) e S env hs.1.2 henv
+              σ σe enve x pc m hce hc1 (by omega) hlr
             simp only [henv n hne, hnone, Option.bind_none] at hc
             have hc' : ((Sem.newCell σe x).1, declEnv env n (Sem.newCell σe x).2, Sem.Res.ok ()) =
                 (σ1, env1, Sem.Res.ok ()) := by
@@ -1057,35 +1345,49 @@ theorem block_simS {f : Nat} (ih : StmtSimS P F N cx f) (d : Int) :
               cases env <;> exact fun h => h
             simp only [Prod.mk.injEq, and_true] at hc'
             obtain ⟨rfl, rfl⟩ := hc'
-            obtain ⟨hlr1, hbase1⟩ := hlr.decl n d hsx0
+            obtain ⟨hlr1, hbase1⟩ := hlre.decl n d hsx0
             have hlook1 := lookRel_decl henv n d σe.cells.size
             have hctx1 : ctxOf (S ++ [Slot.named n d σe.cells.size]) = ctxOf S ++ [(n, d)] := by
               simp [ctxOf, Slot.ctx]
             rw [← hctx1] at hs hc2
-            obtain ⟨new, hctx, hlook2, e2, hlr2, n2, hn2, hsim2⟩ :=
-              block_simS ih d cs (S ++ [Slot.named n d σe.cells.size]) _ hs.2 hlook1 _ σ' env' (m + 5) pc' hex hc2 hsz
+            obtain ⟨new, hctx, hlook2, e2, hnc2, hlr2, n2, hn2, hsim2⟩ :=
+              block_simS ih hcall d cs (S ++ [Slot.named n d σe.cells.size]) _ hs.2 hlook1 _ σ' env' (m + 5) pc' hex hc2 hsz
                 (fun n hn => hN n (Or.inr hn)) hlr1
-            refine ⟨Slot.named n d σe.cells.size :: new, ?_, ?_, ?_, ?_, n1 + 1 + n2, ?_,
-              fun vs cap hst hd hg hfr => ?_⟩
+            refine ⟨Slot.named n d σe.cells.size :: new, ?_, ?_, ?_, ?_, ?_, n1 + 1 + n2, ?_,
+              fun vs cap fs rest hcl hst hd hg hsd => ?_⟩
             · rw [← hctx1, ← hctx]; simp
             · simpa using hlook2
-            · exact SemFrame.trans (show SemFrame σe (Sem.newCell σe x).1 from rfl) e2
+            · exact (ee.trans (SFrame.of_new S σe x)).trans_ext (T := [Slot.named n d σe.cells.size]) e2
+                (fun s hs c hc => by
+                  simp only [List.mem_singleton] at hs; subst hs
+                  simp only [Slot.cell, Option.some.injEq] at hc; rw [← hc]; exact ee.size)
+            · intro s hs c hc
+              rcases List.mem_cons.1 hs with rfl | hs
+              · simp only [Slot.cell, Option.some.injEq] at hc; rw [← hc]; exact ee.size
+              · have h1 := hnc2 s hs c hc
+                have h2 : σe.cells.size ≤ (Sem.newCell σe x).1.cells.size := by
+                  show σe.cells.size ≤ (σe.cells.push x).size; simp
+                have h3 := ee.size
+                omega
             · simpa using hlr2
             · intro hl
               simp only [loopFrees, Bool.and_eq_true] at hl
+              have := hn1 (by simpa [loopFree] using hl.1)
               have := hn2 hl.2; omega
             · simp only [bdepthS] at hd
-              have hpos := edepth_pos e
-              obtain ⟨hsx, vs1, hr1, hst1, hsame1, hg1⟩ := hsim1 vs cap _ hst
-                (by simp only [baseOf_length]; omega) hg hfr hlr ⟨[], rfl⟩
-              obtain ⟨vs2, hr2, hst2, hsame2, hg2⟩ := reach_setLocal_new (P := P) (ip := m) (by omega) hop
-                (by rw [baseOf_length, hrd]; simp [ctxOf]) (hsame1.frameOk hfr) hst1
-                (by simp only [baseOf_length]; omega)
-              rw [← hbase1] at hst2
-              obtain ⟨vs3, hr3, hst3, hsame3, hg3⟩ := hsim2 vs2 cap hst2
+              have hroom := hsd.room
+              have hvpos : 1 ≤ vdepth e := by unfold vdepth; have := edepth_pos e; omega
+              obtain ⟨vs1, hr1, hst1, hsame1, hg1⟩ := hsim1 vs cap fs rest (Nat.le_trans e2.calls hcl) hst
+                (by omega) hg hsd
+              obtain ⟨vs2, hr2, hst2, hsame2, hg2⟩ := reach_setLocalAt_new (P := P) (ip := m) (by omega) hop hrd
+                (by simp [ctxOf, baseOf_length]; omega) (hsame1.side hsd).frameAt hst1
+                (by simp only [List.length_append, baseOf_length]; omega)
+              have hst2' : StackIs vs2.stack cap (baseOf (S ++ [Slot.named n d σe.cells.size]) (Sem.newCell σe x).1 ++ rest) := by
+                rw [hbase1]; exact hst2
+              obtain ⟨vs3, hr3, hst3, hsame3, hg3⟩ := hsim2 vs2 cap fs rest hcl hst2'
                 (by simp only [List.length_append, List.length_singleton]; omega)
-                (by rw [hg2, hg1]; exact hg) ((hsame1.trans hsame2).frameOk hfr)
-              refine ⟨vs3, (hr1.trans hr2 rfl).trans hr3 rfl, ?_, (hsame1.trans hsame2).trans hsame3, hg3⟩
+                (by rw [hg2]; exact hg1) ((hsame1.transS hsame2).side hsd)
+              refine ⟨vs3, (hr1.trans hr2 rfl).trans hr3 rfl, ?_, (hsame1.transS hsame2).trans hsame3, hg3⟩
               simpa using hst3
           | outOfFuel | ret _ | exit | err _ | unspecified _ =>
             simp only [Prod.mk.injEq] at hc
@@ -1097,9 +1399,9 @@ theorem block_simS {f : Nat} (ih : StmtSimS P F N cx f) (d : Int) :
       cases h
 
 omit hFinj hNinj in
-theorem simS_while (f : Nat) (ih : StmtSimS P F N cx f) (ihb : ∀ g, g + 1 = f → StmtSimS P F N cx g)
-    (d : Int) (S : List Slot) (env : Sem.Env) (c : Card) (ty : String) (cs : List Card) :
-    CardSimS P F N cx (f + 1) d (.bin .while c (.composite ty cs)) S env := by
+theorem simS_while (f : Nat) (ih : StmtSimS P F J N cx ft C W f) (ihb : ∀ g, g + 1 = f → StmtSimS P F J N cx ft C W g)
+    (hcall : ∀ g, g ≤ f → CallSimS P F J N cx ft C W g) (d : Int) (S : List Slot) (env : Sem.Env) (c : Card) (ty : String) (cs : List Card) :
+    CardSimS P F J N cx ft C W (f + 1) d (.bin .while c (.composite ty cs)) S env := by
   intro hs henv σ σ' env' pc pc' hex hcode hsz hN hlr
   have hs0 := hs
   have hcode0 := hcode
@@ -1128,8 +1430,8 @@ theorem simS_while (f : Nat) (ih : StmtSimS P F N cx f) (ihb : ∀ g, g + 1 = f 
         | zero => rw [exec_zero] at hb; simp only [Prod.mk.injEq] at hb; obtain ⟨_, _, h⟩ := hb; cases h
         | succ g =>
           rw [exec_composite] at hb
-          obtain ⟨new, hctx, _, e2, hlr2, n3, hn3, hsim3⟩ :=
-            block_simS hout (ihb g rfl) (d + 1) cs S ([] :: env) hsb (lookRel_cons_nil henv) σ1 σ2 env2 (m1 + 5) m2 hb hc2
+          obtain ⟨new, hctx, _, e2, _, hlr2, n3, hn3, hsim3⟩ :=
+            block_simS hout (ihb g rfl) (fun g' hg' => hcall g' (by omega)) (d + 1) cs S ([] :: env) hsb (lookRel_cons_nil henv) σ1 σ2 env2 (m1 + 5) m2 hb hc2
               (by omega) (fun n hn => hN n (by simpa [snames] using hn)) hlr
           have hk : (blockCtx (d + 1) (ctxOf S) cs).length - (ctxOf S).length = new.length := by
             rw [← hctx]; simp [ctxOf]
@@ -1137,27 +1439,27 @@ theorem simS_while (f : Nat) (ih : StmtSimS P F N cx f) (ihb : ∀ g, g + 1 = f 
           have hlr2' : SRel S σ2 := hlr2.pre
           obtain ⟨rfl, e5, hlr5, n5, hn5, hsim5⟩ :=
             ih d (.bin .while c (.composite ty cs)) S env hs0 henv σ2 σ' env' pc pc' hex hcode0 hsz hN hlr2'
-          refine ⟨rfl, e2.trans e5, hlr5, n1 + 1 + n3 + new.length + 1 + n5, ?_, fun vs cap hst hd hg hfr => ?_⟩
+          refine ⟨rfl, e2.trans e5, hlr5, n1 + 1 + n3 + new.length + 1 + n5, ?_, fun vs cap fs rest hcl hst hd hg hsd => ?_⟩
           · intro hl
             simp [loopFree] at hl
           · have hd0 := hd
             simp only [sdepthS] at hd
-            obtain ⟨hsx, vs1, hr1, hst1, hsame1, hg1⟩ := hsim1 vs cap _ hst (by simp only [baseOf_length]; omega) hg hfr hlr ⟨[], rfl⟩
+            obtain ⟨hsx, vs1, hr1, hst1, hsame1, hg1⟩ := hsim1 vs cap _ _ hst (by have := hsd.room; simp only [List.length_append, baseOf_length]; omega) hg hsd.frameAt hlr ⟨[], rest, rfl, rfl⟩
             obtain ⟨vs2, hr2, hst2, hsame2, hg2⟩ := reach_gotoIfFalse (P := P) (ip := m1) (by omega) hop1 hst1
             rw [truthy_eq hsx vs1.heap σ1, if_pos ht] at hr2
-            obtain ⟨vs3, hr3, hst3, hsame3, hg3⟩ := hsim3 vs2 cap hst2 (by omega) (by rw [hg2, hg1]; exact hg)
-              ((hsame1.trans hsame2).frameOk hfr)
-            rw [baseOf_append] at hst3
-            obtain ⟨vs3', hr3', hst3', hsame3', hg3'⟩ := reach_popsN (P := P) (baseOf new σ2) (baseOf S σ2) m2 vs3
+            obtain ⟨vs3, hr3, hst3, hsame3, hg3⟩ := hsim3 vs2 cap fs rest (Nat.le_trans e5.calls hcl) hst2 (by omega)
+              (by rw [hg2, hg1]; exact hg) ((hsame1.trans hsame2).side hsd)
+            rw [baseOf_append, List.append_assoc] at hst3
+            obtain ⟨vs3', hr3', hst3', hsame3', hg3'⟩ := reach_popsN (P := P) (baseOf new σ2) (baseOf S σ2 ++ rest) m2 vs3
               (fun j hj => hpops j (by rw [baseOf_length] at hj; exact hj)) (by rw [baseOf_length]; omega) hst3
             rw [baseOf_length] at hr3'
             obtain ⟨vs4, hr4, hst4, hsame4, hg4⟩ := reach_goto (P := P) (ip := m2 + new.length) (vs := vs3') (by omega) hop2
             rw [hrd2] at hr4
-            obtain ⟨vs5, hr5, hst5, hsame5, hg5⟩ := hsim5 vs4 cap (by rw [hst4]; exact hst3') hd0
+            obtain ⟨vs5, hr5, hst5, hsame5, hg5⟩ := hsim5 vs4 cap fs rest hcl (by rw [hst4]; exact hst3') hd0
               (by rw [hg4, hg3']; exact hg3)
-              (((((hsame1.trans hsame2).trans hsame3).trans hsame3').trans hsame4).frameOk hfr)
+              (((((hsame1.trans hsame2).transP hsame3).transS hsame3').transS hsame4).side hsd)
             exact ⟨vs5, (((((hr1.trans hr2 rfl).trans hr3 rfl).trans hr3' rfl).trans hr4 rfl).trans hr5 rfl), hst5,
-              ((((hsame1.trans hsame2).trans hsame3).trans hsame3').trans hsame4).trans hsame5, hg5⟩
+              ((((hsame1.trans hsame2).transP hsame3).transS hsame3').transS hsame4).trans hsame5, hg5⟩
       | outOfFuel | ret _ | exit | err _ | unspecified _ =>
         simp only [Prod.mk.injEq] at hex
         obtain ⟨_, _, h⟩ := hex
@@ -1165,96 +1467,166 @@ theorem simS_while (f : Nat) (ih : StmtSimS P F N cx f) (ihb : ∀ g, g + 1 = f 
     · rw [if_neg ht] at hex
       simp only [Prod.mk.injEq, and_true] at hex
       obtain ⟨rfl, rfl⟩ := hex
-      refine ⟨rfl, SemFrame.refl _, hlr, n1 + 1, ?_, fun vs cap hst hd hg hfr => ?_⟩
+      refine ⟨rfl, SFrame.refl _ _, hlr, n1 + 1, ?_, fun vs cap fs rest hcl hst hd hg hsd => ?_⟩
       · intro hl
         simp [loopFree] at hl
       · simp only [sdepthS] at hd
-        obtain ⟨hsx, vs1, hr1, hst1, hsame1, hg1⟩ := hsim1 vs cap _ hst (by simp only [baseOf_length]; omega) hg hfr hlr ⟨[], rfl⟩
+        obtain ⟨hsx, vs1, hr1, hst1, hsame1, hg1⟩ := hsim1 vs cap _ _ hst (by have := hsd.room; simp only [List.length_append, baseOf_length]; omega) hg hsd.frameAt hlr ⟨[], rest, rfl, rfl⟩
         obtain ⟨vs2, hr2, hst2, hsame2, hg2⟩ := reach_gotoIfFalse (P := P) (ip := m1) (by omega) hop1 hst1
         rw [truthy_eq hsx vs1.heap σ1, if_neg ht, hrd1] at hr2
-        exact ⟨vs2, hr1.trans hr2 rfl, hst2, hsame1.trans hsame2, by rw [hg2, hg1]; exact hg⟩
+        exact ⟨vs2, hr1.trans hr2 rfl, hst2, (hsame1.trans hsame2).pres, by rw [hg2, hg1]; exact hg⟩
   | outOfFuel | ret _ | exit | err _ | unspecified _ =>
     simp only [Prod.mk.injEq] at hex
     obtain ⟨_, _, h⟩ := hex
     cases h
 
-/-- the simulation of statement cards with scoped locals -/
-theorem exec_simS : ∀ (f g : Nat), g ≤ f → StmtSimS P F N cx g := by
+end stmtsimS
+
+section execsim
+variable {P : Prog} {F : List (UInt32 × Nat)} {J : Compiler.JumpTable} {N : String → Prop} {ft : Feat} {C W : Nat}
+variable (hFinj : FInj F) (hNinj : HInj N)
+include hFinj hNinj
+
+/-- the contexts in which the functions of one program are evaluated: no enclosing scopes, the
+    function table `fns` -/
+def CxOk (fns : Array Sem.FnDef) (cx : Sem.Ctx) : Prop := cx.outer = [] ∧ cx.fns = fns
+
+omit hFinj hNinj in
+theorem stmtSimS_zero (cx : Sem.Ctx) : StmtSimS P F J N cx ft C W 0 := by
+  intro d c S env _ _ σ σ' env' pc pc' hex
+  rw [exec_zero] at hex
+  simp only [Prod.mk.injEq] at hex
+  obtain ⟨_, _, h⟩ := hex
+  cases h
+
+/-- one more unit of fuel: `hcall` is the simulation of static calls at lower fuel, `hrep` the case of
+    `Repeat` -/
+theorem stmtSimS_succ (cx : Sem.Ctx) (hout : cx.outer = []) (f : Nat)
+    (ih : ∀ g, g ≤ f → StmtSimS P F J N cx ft C W g)
+    (hcall : ∀ g, g ≤ f → CallSimS P F J N cx ft C W g)
+    (hrep : ∀ (d : Int) (S : List Slot) (env : Sem.Env) (i : Option String) (n : Card) (ty : String) (cs : List Card),
+      CardSimS P F J N cx ft C W (f + 1) d (.repeat i n (.composite ty cs)) S env) :
+    StmtSimS P F J N cx ft C W (f + 1) := by
+  have ihf := ih f (Nat.le_refl _)
+  intro d c S env
+  cases c with
+  | setGlobalVar n e => exact simS_setGlobal hout hFinj hNinj f hcall d S env n e
+  | setVar n e => exact simS_setVar hout f hcall d S env n e
+  | comment t =>
+    intro _ _ σ σ' env' pc pc' hex hcode _ _ hlr
+    rw [exec_comment] at hex
+    simp only [Prod.mk.injEq, and_true] at hex
+    obtain ⟨rfl, rfl⟩ := hex
+    simp only [SCodeS] at hcode
+    subst hcode
+    exact ⟨rfl, SFrame.refl _ _, hlr, 0, fun _ => Nat.zero_le _, fun vs cap fs rest _ hst _ hg _ =>
+      ⟨vs, Reach.refl _ _, hst, Pres.refl _, hg⟩⟩
+  | composite t cs =>
+    intro hs henv σ σ' env' pc pc' hex hcode hsz hN hlr
+    rw [exec_composite] at hex
+    simp only [isStmtS] at hs
+    simp only [SCodeS] at hcode
+    simp only [snames] at hN
+    have := stmts_simS ihf d S env cs hs henv σ σ' env' pc pc' hex hcode hsz hN hlr
+    simpa only [loopFree, sdepthS] using this
+  | tri k a b c =>
+    cases k with
+    | ifElse => exact simS_ifElse hout f ihf d S env a b c
+    | setProperty => intro hs; simp [isStmtS] at hs
+  | bin k a b =>
+    cases k with
+    | ifTrue => exact simS_ifTrue hout f ihf d S env a b
+    | ifFalse => exact simS_ifFalse hout f ihf d S env a b
+    | «while» =>
+      cases b with
+      | composite ty cs => exact simS_while hout f ihf (fun g hg => ih g (by omega)) hcall d S env a ty cs
+      | _ => intro hs; simp [isStmtS] at hs
+    | _ => intro hs; simp [isStmtS] at hs
+  | «repeat» i n b =>
+    cases b with
+    | composite ty cs => exact hrep d S env i n ty cs
+    | _ => intro hs; simp [isStmtS] at hs
+  | un k e =>
+    cases k with
+    | ret =>
+      -- a `Return` never ends with `ok`
+      intro _ _ σ σ' env' pc pc' hex
+      have : Sem.exec cx (f + 1) env σ (.un .ret e) =
+          (match Sem.eval cx f env σ e with
+            | (s, env, .ok x) => (s, env, .ret x)
+            | (s, env, .ret v) => (s, env, .ret v)
+            | (s, env, .exit) => (s, env, .exit)
+            | (s, env, .err e) => (s, env, .err e)
+            | (s, env, .unspecified w) => (s, env, .unspecified w)
+            | (s, env, .outOfFuel) => (s, env, .outOfFuel)) := rfl
+      rw [this] at hex
+      rcases hc : Sem.eval cx f env σ e with ⟨σ1, env1, r1⟩
+      rw [hc] at hex
+      cases r1 <;> (simp only [Prod.mk.injEq] at hex; obtain ⟨_, _, h⟩ := hex; cases h)
+    | _ => intro hs; simp [isStmtS] at hs
+  | _ => intro hs; simp [isStmtS] at hs
+
+/-- the simulation of statement cards with scoped locals, for all functions of the program; `hrepS`
+    is the case of `Repeat` (proved in `C01R.lean`) and `hcallS` the case of static calls in value
+    positions (proved in `C01C.lean`); both are vacuous for fragments without these cards -/
+theorem exec_simS (fns : Array Sem.FnDef)
+    (hrepS : ∀ (cx : Sem.Ctx), CxOk fns cx → ∀ (f : Nat), (∀ g, g + 1 = f → StmtSimS P F J N cx ft C W g) →
+      (∀ g, g ≤ f → CallSimS P F J N cx ft C W g) →
+      ∀ (d : Int) (S : List Slot) (env : Sem.Env) (i : Option String) (n : Card) (ty : String) (cs : List Card),
+      CardSimS P F J N cx ft C W (f + 1) d (.repeat i n (.composite ty cs)) S env)
+    (hcallS : ∀ (cx : Sem.Ctx), CxOk fns cx → ∀ (f : Nat),
+      (∀ g, g < f → ∀ cx', CxOk fns cx' → StmtSimS P F J N cx' ft C W g) → CallSimS P F J N cx ft C W f) :
+    ∀ (f g : Nat), g ≤ f → ∀ cx, CxOk fns cx → StmtSimS P F J N cx ft C W g := by
   intro f
   induction f with
   | zero =>
-    intro g hg d c S env _ _ σ σ' env' pc pc' hex
+    intro g hg cx _
     obtain rfl : g = 0 := by omega
-    rw [exec_zero] at hex
-    simp only [Prod.mk.injEq] at hex
-    obtain ⟨_, _, h⟩ := hex
-    cases h
+    exact stmtSimS_zero cx
   | succ f ih =>
-    intro g hg
+    intro g hg cx hcx
     rcases Nat.lt_or_ge g (f + 1) with hlt | hge
-    · exact ih g (by omega)
+    · exact ih g (by omega) cx hcx
     · obtain rfl : g = f + 1 := by omega
-      have ihf := ih f (Nat.le_refl _)
-      intro d c S env
-      cases c with
-      | setGlobalVar n e => exact simS_setGlobal hout hFinj hNinj f d S env n e
-      | setVar n e => exact simS_setVar hout f d S env n e
-      | comment t =>
-        intro _ _ σ σ' env' pc pc' hex hcode _ _ hlr
-        rw [exec_comment] at hex
-        simp only [Prod.mk.injEq, and_true] at hex
-        obtain ⟨rfl, rfl⟩ := hex
-        simp only [SCodeS] at hcode
-        subst hcode
-        exact ⟨rfl, SemFrame.refl _, hlr, 0, fun _ => Nat.zero_le _, fun vs cap hst _ hg _ =>
-          ⟨vs, Reach.refl _ _, hst, SameRest.refl _, hg⟩⟩
-      | composite t cs =>
-        intro hs henv σ σ' env' pc pc' hex hcode hsz hN hlr
-        rw [exec_composite] at hex
-        simp only [isStmtS] at hs
-        simp only [SCodeS] at hcode
-        simp only [snames] at hN
-        have := stmts_simS ihf d S env cs hs henv σ σ' env' pc pc' hex hcode hsz hN hlr
-        simpa only [loopFree, sdepthS] using this
-      | tri k a b c =>
-        cases k with
-        | ifElse => exact simS_ifElse hout f ihf d S env a b c
-        | setProperty => intro hs; simp [isStmtS] at hs
-      | bin k a b =>
-        cases k with
-        | ifTrue => exact simS_ifTrue hout f ihf d S env a b
-        | ifFalse => exact simS_ifFalse hout f ihf d S env a b
-        | «while» =>
-          cases b with
-          | composite ty cs => exact simS_while hout f ihf (fun g hg => ih g (by omega)) d S env a ty cs
-          | _ => intro hs; simp [isStmtS] at hs
-        | _ => intro hs; simp [isStmtS] at hs
-      | _ => intro hs; simp [isStmtS] at hs
+      have hcall : ∀ g, g ≤ f → CallSimS P F J N cx ft C W g := fun g hg =>
+        hcallS cx hcx g (fun g' hg' cx' hcx' => ih g' (by omega) cx' hcx')
+      exact stmtSimS_succ hFinj hNinj cx hcx.1 f (fun g hg => ih g hg cx hcx) hcall
+        (hrepS cx hcx f (fun g hg => ih g (by omega) cx hcx) hcall)
 
-end stmtsimS
+end execsim
+
+
+/-- without callable functions the values are the expressions -/
+theorem isVal_expr {ft : Feat} (hfns : ft.fns = []) {e : Card} (h : isVal ft e = true) : isExpr e = true := by
+  rcases isVal_cases h with h | ⟨g, args, rfl, hc⟩
+  · exact h
+  · simp [isCall, Feat.lookup, hfns] at hc
 
 mutual
-theorem isStmtS_B (d : Int) (L : LCtx) : ∀ (c : Card), isStmtS d L c = true → isStmtB c = true
-  | .setGlobalVar n e => fun h => by simpa only [isStmtS, isStmtB] using h
+theorem isStmtS_B {ft : Feat} (hfns : ft.fns = []) (hret : ft.ret = false) (d : Int) (L : LCtx) : ∀ (c : Card), isStmtS ft d L c = true → isStmtB c = true
+  | .setGlobalVar n e => fun h => by
+    simp only [isStmtS, Bool.and_eq_true] at h
+    simp only [isStmtB, Bool.and_eq_true]
+    exact ⟨h.1, isVal_expr hfns h.2⟩
   | .setVar n e => fun h => by
     simp only [isStmtS, Bool.and_eq_true] at h
     simp only [isStmtB, Bool.and_eq_true]
-    exact ⟨h.1.1, h.2⟩
+    exact ⟨h.1.1, isVal_expr hfns h.2⟩
   | .bin .ifTrue c b => fun h => by
     simp only [isStmtS, isStmtB, Bool.and_eq_true] at h ⊢
-    exact ⟨h.1, isStmtS_B d L b h.2⟩
+    exact ⟨h.1, isStmtS_B hfns hret d L b h.2⟩
   | .bin .ifFalse c b => fun h => by
     simp only [isStmtS, isStmtB, Bool.and_eq_true] at h ⊢
-    exact ⟨h.1, isStmtS_B d L b h.2⟩
+    exact ⟨h.1, isStmtS_B hfns hret d L b h.2⟩
   | .bin .while c (.composite _ cs) => fun h => by
     simp only [isStmtS, isStmtB, Bool.and_eq_true] at h ⊢
-    exact ⟨h.1, isBlock_B (d + 1) cs L h.2⟩
+    exact ⟨h.1, isBlock_B hfns hret (d + 1) cs L h.2⟩
   | .tri .ifElse c t e => fun h => by
     simp only [isStmtS, isStmtB, Bool.and_eq_true] at h ⊢
-    exact ⟨⟨h.1.1, isStmtS_B d L t h.1.2⟩, isStmtS_B d L e h.2⟩
+    exact ⟨⟨h.1.1, isStmtS_B hfns hret d L t h.1.2⟩, isStmtS_B hfns hret d L e h.2⟩
   | .composite _ cs => fun h => by
     simp only [isStmtS, isStmtB] at h ⊢
-    exact isStmtsS_B d L cs h
+    exact isStmtsS_B hfns hret d L cs h
   | .comment _ => fun _ => rfl
   | .bin .while _ (.bin _ _ _) | .bin .while _ (.un _ _) | .bin .while _ (.tri _ _ _ _) | .bin .while _ .scalarNil
   | .bin .while _ .createTable | .bin .while _ .abort | .bin .while _ (.scalarInt _) | .bin .while _ (.scalarFloat _)
@@ -1266,28 +1638,40 @@ theorem isStmtS_B (d : Int) (L : LCtx) : ∀ (c : Card), isStmtS d L c = true 
   | .bin .add _ _ | .bin .sub _ _ | .bin .mul _ _ | .bin .div _ _ | .bin .less _ _ | .bin .lessOrEq _ _
   | .bin .equals _ _ | .bin .notEquals _ _ | .bin .and _ _ | .bin .or _ _ | .bin .xor _ _
   | .bin .getProperty _ _ | .bin .get _ _ | .bin .appendTable _ _
-  | .un _ _ | .tri .setProperty _ _ _ | .scalarNil | .createTable | .abort | .scalarInt _ | .scalarFloat _
+  | .un .not _ | .un .len _ | .un .popTable _ | .tri .setProperty _ _ _ | .scalarNil | .createTable | .abort | .scalarInt _ | .scalarFloat _
   | .stringLiteral _ | .function _ | .nativeFunction _ | .readVar _ | .callNative _ _
-  | .call _ _ | .repeat _ _ _ | .forEach _ _ _ _ _ | .dynamicCall _ _ | .array _ | .closure _ _ => fun h => by
+  | .call _ _ | .forEach _ _ _ _ _ | .dynamicCall _ _ | .array _ | .closure _ _
+  | .repeat _ _ (.bin _ _ _) | .repeat _ _ (.un _ _) | .repeat _ _ (.tri _ _ _ _) | .repeat _ _ .scalarNil
+  | .repeat _ _ .createTable | .repeat _ _ .abort | .repeat _ _ (.scalarInt _) | .repeat _ _ (.scalarFloat _)
+  | .repeat _ _ (.stringLiteral _) | .repeat _ _ (.comment _) | .repeat _ _ (.function _) | .repeat _ _ (.nativeFunction _)
+  | .repeat _ _ (.readVar _) | .repeat _ _ (.setVar _ _) | .repeat _ _ (.setGlobalVar _ _) | .repeat _ _ (.callNative _ _)
+  | .repeat _ _ (.call _ _) | .repeat _ _ (.repeat _ _ _) | .repeat _ _ (.forEach _ _ _ _ _) | .repeat _ _ (.dynamicCall _ _)
+  | .repeat _ _ (.array _) | .repeat _ _ (.closure _ _) => fun h => by
     simp [isStmtS] at h
-theorem isStmtsS_B (d : Int) (L : LCtx) : ∀ (cs : List Card), isStmtsS d L cs = true → isStmtsB cs = true
+  | .un .ret _ => fun h => by
+    simp [isStmtS, hret] at h
+  | .repeat _ n (.composite _ cs) => fun h => by
+    simp only [isStmtS, Bool.and_eq_true] at h
+    simp only [isStmtB, Bool.and_eq_true]
+    exact ⟨h.1.1.2, isBlock_B hfns hret (d + 2) cs _ h.2⟩
+theorem isStmtsS_B {ft : Feat} (hfns : ft.fns = []) (hret : ft.ret = false) (d : Int) (L : LCtx) : ∀ (cs : List Card), isStmtsS ft d L cs = true → isStmtsB cs = true
   | [] => fun _ => rfl
   | c :: cs => fun h => by
     simp only [isStmtsS, isStmtsB, Bool.and_eq_true] at h ⊢
-    exact ⟨isStmtS_B d L c h.1, isStmtsS_B d L cs h.2⟩
-theorem isBlock_B (d : Int) : ∀ (cs : List Card) (L : LCtx), isBlock d L cs = true → isStmtsB cs = true
+    exact ⟨isStmtS_B hfns hret d L c h.1, isStmtsS_B hfns hret d L cs h.2⟩
+theorem isBlock_B {ft : Feat} (hfns : ft.fns = []) (hret : ft.ret = false) (d : Int) : ∀ (cs : List Card) (L : LCtx), isBlock ft d L cs = true → isStmtsB cs = true
   | [], _ => fun _ => rfl
   | c :: cs, L => fun h => by
     simp only [isBlock] at h
     simp only [isStmtsB, Bool.and_eq_true]
     rcases hdecl : declOf L c with _ | ⟨n, e⟩
     · simp only [hdecl, Bool.and_eq_true] at h
-      exact ⟨isStmtS_B d L c h.1, isBlock_B d cs L h.2⟩
+      exact ⟨isStmtS_B hfns hret d L c h.1, isBlock_B hfns hret d cs L h.2⟩
     · simp only [hdecl, Bool.and_eq_true] at h
       obtain ⟨rfl, _⟩ := declOf_some hdecl
-      refine ⟨?_, isBlock_B d cs _ h.2⟩
+      refine ⟨?_, isBlock_B hfns hret d cs _ h.2⟩
       simp only [isStmtB, Bool.and_eq_true]
-      exact h.1
+      exact ⟨h.1.1, isVal_expr hfns h.1.2⟩
 end
 
 theorem srel_empty : SRel [] ({} : Sem.St) :=
@@ -1297,8 +1681,17 @@ theorem srel_empty : SRel [] ({} : Sem.St) :=
 theorem lookRel_empty : LookRel [[]] [] := fun _ _ => rfl
 
 /-- The core of the compile-correctness theorems for `main` with scoped locals. -/
-theorem compile_correct_coreS (m std : Module) (limit fuel : Nat) (cfg : Config) (p : Program) (f : Func)
-    (hmain : mainFn m = some f) (hargs : f.arguments = []) (hfrag : isBlock 1 [] f.cards = true)
+theorem compile_correct_coreS (ft : Feat) (hrepX : RepXAll ft) (hfns : ft.fns = [])
+    (hrepS : ∀ (P : Prog) (F : List (UInt32 × Nat)) (J : Compiler.JumpTable) (N : String → Prop) (cx : Sem.Ctx) (C W : Nat),
+      cx.outer = [] → FInj F → HInj N →
+      ∀ (f : Nat), (∀ g, g + 1 = f → StmtSimS P F J N cx ft C W g) → (∀ g, g ≤ f → CallSimS P F J N cx ft C W g) →
+      ∀ (d : Int) (S : List Slot) (env : Sem.Env)
+      (i : Option String) (n : Card) (ty : String) (cs : List Card),
+      CardSimS P F J N cx ft C W (f + 1) d (.repeat i n (.composite ty cs)) S env)
+    (m std : Module) (limit fuel : Nat) (cfg : Config) (p : Program) (f : Func)
+    (hbenign : ∀ (cx : Sem.Ctx), cx.outer = [] → benign (Sem.execList cx fuel [[]] {} f.cards).2.2)
+    (hnocalls : ∀ (cx : Sem.Ctx), cx.outer = [] → (Sem.execList cx fuel [[]] {} f.cards).1.calls = 0)
+    (hmain : mainFn m = some f) (hargs : f.arguments = []) (hfrag : isBlock ft 1 [] f.cards = true)
     (hinj : HInj (· ∈ snamess f.cards))
     (hc : compile m std limit = .ok p)
     (hB : p.bytecode.size < 4294967296) (hV : p.varIds.length < 4294967296)
@@ -1312,34 +1705,44 @@ theorem compile_correct_coreS (m std : Module) (limit fuel : Nat) (cfg : Config)
           vmGlobal p (Vm.run (Prog.ofProgram p) maxInstr (VmState.fresh cfg)).1 g =
             semGlobal (Sem.run m std fuel) g := by
   obtain ⟨i, nf, hi, hf, rfl⟩ := mainFn_some hmain
-  obtain ⟨mainEnd, hcode, hpops, hexit, hend, hFinj⟩ := compile_mainS hc hi hf hargs hfrag hB hV
+  obtain ⟨J, mainEnd, hcode, hpops, hexit, hend, hFinj⟩ := compile_mainS hrepX hfns hc hi hf hargs hfrag hB hV
   obtain ⟨cx, hout, hrun⟩ := sem_run_main (std := std) (fuel := fuel) hi hf
   rw [hrun] at hsem ⊢
-  have hB' := isBlock_B 1 nf.2.cards [] hfrag
-  have hben : benign (Sem.execList cx fuel [[]] {} nf.2.cards).2.2 :=
-    execList_benign _ (fun c hc env σ => exec_benignB cx hout fuel c (isStmtsB_mem hB' c hc) env σ) _ _
+  have hben : benign (Sem.execList cx fuel [[]] {} nf.2.cards).2.2 := hbenign cx hout
   have hok := render_ok hben hsem
+  have hnc := hnocalls cx hout
   rcases hex : Sem.execList cx fuel [[]] {} nf.2.cards with ⟨σ', env', r⟩
-  rw [hex] at hok
+  rw [hex] at hok hnc
+  simp only at hnc
   simp only at hok
   subst hok
-  obtain ⟨new, hctx, _, hσ, hlr', n, hn, hsim⟩ := block_simS (P := Prog.ofProgram p) (F := p.varIds)
-    (N := (· ∈ snamess nf.2.cards)) hout (exec_simS hout hFinj hinj fuel fuel (Nat.le_refl _)) 1 nf.2.cards [] [[]]
+  have hnoCall : ∀ (cx : Sem.Ctx) (g : Nat), CallSimS (Prog.ofProgram p) p.varIds J (· ∈ snamess nf.2.cards) cx ft 0
+      (bdepthS nf.2.cards) g := fun cx g h args S env he => by
+    simp [isVal, isExpr, isCall, Feat.lookup, hfns] at he
+  obtain ⟨new, hctx, _, hσ, _, hlr', n, hn, hsim⟩ := block_simS (P := Prog.ofProgram p) (F := p.varIds) (J := J)
+    (N := (· ∈ snamess nf.2.cards)) (C := 0) (W := bdepthS nf.2.cards) hout
+    (exec_simS hFinj hinj cx.fns (fun cx' hcx' => hrepS _ _ _ _ cx' 0 (bdepthS nf.2.cards) hcx'.1 hFinj hinj)
+      (fun cx' _ g _ => hnoCall cx' g) fuel fuel (Nat.le_refl _) cx ⟨hout, rfl⟩) (fun g _ => hnoCall cx g) 1 nf.2.cards [] [[]]
     hfrag lookRel_empty {} σ' env' 0 mainEnd hex hcode
     (Nat.le_trans (Nat.le_add_right _ _) (Nat.le_of_lt hend)) (fun n hn => hn) srel_empty
   have hk : (baseOf ([] ++ new) σ').length = (blockCtx 1 [] nf.2.cards).length := by
     have hctx' : ctxOf ([] ++ new) = blockCtx 1 [] nf.2.cards := hctx
     rw [baseOf_length, ← hctx']; simp [ctxOf]
   refine ⟨n + (blockCtx 1 [] nf.2.cards).length, fun hl => by have := hn hl; omega, fun maxInstr hmax => ?_⟩
-  obtain ⟨vsK, hr, hstK, hsameK, hgK⟩ := hsim (startState cfg maxInstr) cfg.stackSize
-    (stackIs_new _) (by show 0 + _ < _; omega) (grel_empty _ _) (frameOk_start _ _)
+  obtain ⟨vsK, hr, hstK, hsameK, hgK⟩ := hsim (startState cfg maxInstr) cfg.stackSize [] [] (by rw [hnc]; exact Nat.le_refl _)
+    (by rw [List.append_nil]; exact stackIs_new _) (by show 0 + _ ≤ _; omega) (grel_empty _ _)
+    ⟨⟨_, rfl, rfl, rfl⟩, fun _ h => (by cases h), rfl, fun _ h => (by cases h), rfl, rfl, fun _ h => (by cases h),
+      by show 0 + 1 + (0 - 0) ≤ cfg.callStackSize; omega, by show 0 + (0 - 0 + 1) * _ < _; omega,
+      fun h => absurd h (Nat.lt_irrefl 0)⟩
+  rw [List.append_nil] at hstK
   obtain ⟨vsP, hrP, hstP, hsameP, hgP⟩ := reach_pops (P := Prog.ofProgram p) (baseOf ([] ++ new) σ') mainEnd vsK
     (fun j hj => hpops j (by rw [← hk]; exact hj)) (by rw [hk]; exact Nat.le_of_lt hend) hstK
   rw [hk] at hrP
   rw [vm_run_of_reach hcalls (hr.trans hrP rfl) hexit hend hmax]
-  have hsame := hsameK.trans hsameP
-  have hlog : vsP.hostLog = [] := by rw [hsame]; rfl
-  have hσlog : σ'.log = [] := by rw [hσ]
+  have hlog : vsP.hostLog = [] := by
+    have e : vsP.hostLog = vsK.hostLog := by unfold SameRest at hsameP; rw [hsameP]
+    rw [e, hsameK.log]; rfl
+  have hσlog : σ'.log = [] := by rw [hσ.toSemFrame.eq]
   refine ⟨rfl, ?_, fun g hg => ?_⟩
   · show vsP.hostLog = σ'.log
     rw [hlog, hσlog]
@@ -1353,11 +1756,11 @@ theorem compile_correct_coreS (m std : Module) (limit fuel : Nat) (cfg : Config)
     the body in a fresh scope). `If*` branches still may not declare. -/
 def InF3 (m : Module) : Bool :=
   match mainFn m with
-  | some f => f.arguments.isEmpty && isBlock 1 [] f.cards
+  | some f => f.arguments.isEmpty && isBlock {} 1 [] f.cards
   | none => false
 
 theorem inF3_main {m : Module} (h : InF3 m = true) :
-    ∃ f, mainFn m = some f ∧ f.arguments = [] ∧ isBlock 1 [] f.cards = true ∧ mainCards m = f.cards := by
+    ∃ f, mainFn m = some f ∧ f.arguments = [] ∧ isBlock {} 1 [] f.cards = true ∧ mainCards m = f.cards := by
   unfold InF3 at h
   unfold mainCards
   rcases hm : mainFn m with _ | f
@@ -1378,8 +1781,14 @@ theorem compile_correct_F3 (m std : Module) (limit fuel : Nat) (cfg : Config) (p
         (Sem.run m std fuel) := by
   obtain ⟨f, hmain, hargs, hst, hcards⟩ := inF3_main hfrag
   rw [hcards] at hnames hstack ⊢
-  obtain ⟨n, _, hall⟩ := compile_correct_coreS m std limit fuel cfg p f hmain hargs hst
-    (hinj_of_handlesDistinct hnames) hc hB hV hstack hcalls hsem
+  obtain ⟨n, _, hall⟩ := compile_correct_coreS {} (repX_false rfl) rfl
+    (fun P F J N cx C W _ _ _ f _ _ d S env i n ty cs hs => by simp [isStmtS] at hs)
+    m std limit fuel cfg p f
+    (fun cx hout => execList_benign _ (fun c hc env σ =>
+      exec_benignB cx hout fuel c (isStmtsB_mem (isBlock_B (ft := {}) rfl rfl 1 f.cards [] hst) c hc) env σ) _ _)
+    (fun cx hout => execList_calls _ (fun c hc env σ =>
+      exec_callsB cx hout fuel c (isStmtsB_mem (isBlock_B (ft := {}) rfl rfl 1 f.cards [] hst) c hc) env σ) _ _)
+    hmain hargs hst (hinj_of_handlesDistinct hnames) hc hB hV hstack hcalls hsem
   refine ⟨n + 2, fun maxInstr hmax => ?_⟩
   obtain ⟨h1, h2, h3⟩ := hall maxInstr hmax
   exact ⟨⟨h1, hsem⟩, h2, h3⟩
@@ -1390,7 +1799,7 @@ theorem sem_run_benign_F3 (m std : Module) (hfrag : InF3 m = true) (fuel : Nat) 
   obtain ⟨fn, hmain, _, hst, _⟩ := inF3_main hfrag
   obtain ⟨i, nf, hi, hf, rfl⟩ := mainFn_some hmain
   obtain ⟨cx, hout, hrun⟩ := sem_run_main (std := std) (fuel := fuel) hi hf
-  have hB' := isBlock_B 1 nf.2.cards [] hst
+  have hB' := isBlock_B (ft := {}) rfl rfl 1 nf.2.cards [] hst
   exact ⟨_, hrun, execList_benign _ (fun c hc env σ => exec_benignB cx hout fuel c (isStmtsB_mem hB' c hc) env σ) _ _⟩
 
 /-- **Fuel independence on F3**. -/
@@ -1401,7 +1810,7 @@ theorem sem_run_fuel_mono_F3 (m std : Module) (hfrag : InF3 m = true) (f f' : Na
   obtain ⟨cx, hout, hrun⟩ := sem_run_main' (std := std) hi hf
   rw [hrun f] at h
   rw [hrun f', hrun f]
-  have hB' := isBlock_B 1 nf.2.cards [] hst
+  have hB' := isBlock_B (ft := {}) rfl rfl 1 nf.2.cards [] hst
   have hn : ¬ isOOF (Sem.execList cx f [[]] {} nf.2.cards).2.2 := by
     intro hoof
     rcases hx : Sem.execList cx f [[]] {} nf.2.cards with ⟨σ1, env1, r1⟩
@@ -1448,7 +1857,7 @@ theorem exScoped_inF3 : InF3 exScoped = true := by
   have l5 : lidx [("i", 1), ("a", 1), ("t", 2)] "i" = some 0 := by decide
   unfold InF3
   rw [hm]
-  simp [isBlock, declOf, isStmtS, isExpr, isValOp, simpleName_a, simpleName_i, simpleName_t,
+  simp [isBlock, declOf, isStmtS, isVal, isCall, isExpr, isValOp, simpleName_a, simpleName_i, simpleName_t,
     l1, l2, l3, l4, l5]
 
 /- expected: "SEM: ok [(out, i6)] | VM: ok [i6]" -/
